@@ -12,1571 +12,1815 @@ Definition show_fres (r : fres) : string :=
   end.
 Definition check (rs : list rune) : string := digest (show_fres (format_res rs)).
 Definition full (rs : list rune) : string := show_fres (format_res rs).
-Eval vm_compute in ("<<<M1276>>>" ++ check (runes_of_ascii "
-packet f32a{ @calculatedFrom(""packet""  )@tag( 00 ) @leftPad
-    // a // b
-    ('0')rootA, @tag( 65535
-    )string roots @lengthOf(	MetaDataX  )
-    `" ++ [233]%N ++ runes_of_ascii "`,@rightPad (  )
-    zchar[
-    10 ]matchKey // @lengthOf(
-@lengthOf( float )// packet A { u8 x, }
+Eval vm_compute in ("<<<M3650>>>" ++ check (runes_of_ascii "options { LittleEndian =
+    // c3
+false // c4
+; FixedStringPadFromLeft // c6a
+  // c6b
+= // c7a
+  // c7b
+false // c8
+; // c9
+FixedStringPadChar // c10
+= // c11
+' '
+    // c12
+; // c13a
+  // c13b
+} packet Fill { uint16 // c18a
+  // c18b
+Qty // c19a
+  // c19b
+, // c20a
+  // c20b
+uint64 clOrdID // c22
 ,
+    // c23
+repeat // c24a
+  // c24b
+i64
+    // c25
+Flags // c26
+, // c27
+} // c28
+packet // c29a
+  // c29b
+Ack
+    // c30
+{ zchar[ // c32
+7 ] clOrdID , // c36
+u64
+    // c37
+lastPx // c38
+,
+    // c39
+char[] // c40a
+  // c40b
+Note , // c42a
+  // c42b
+repeat
+    // c43
+Fill , // c45
+int32
+    // c46
+count , } // c49
+packet
+    // c50
+Quote // c51a
+  // c51b
+{ u8 // c53
+venue // c54a
+  // c54b
+, InRef40 // c56a
+  // c56b
+{ // c57a
+  // c57b
+char[] // c58
+Qty
+    // c59
+, // c60
+}
+    // c61
+,
+    // c62
+zchar[
+    // c63
+5 ] Flags
+    // c66
+,
+    // c67
 @rightPad
-    ( )roots MetaDataX
-, u128 , // c
-match
-// `tick` ""quote"" 'q'
-// " ++ [128512]%N ++ runes_of_ascii " emoji
-len as	BodyLength {	""" ++ [128512]%N ++ runes_of_ascii """ :
-    float,[ 4294967296 ,// a // b
-00,
-    0123456789
-, ""`tick`"" ,""it's"", ""\n"", 65535 , 7 ] ://	t
-calculatedFrom ,
-[ ""packet""  , 007//
-, ""\" ++ [233]%N ++ runes_of_ascii """
+    // c68
+( // c69
+'\x00' // c70a
+  // c70b
+) // c71
+char[ // c72
+12
+    // c73
+] // c74a
+  // c74b
+msgKind // c75
+, // c76a
+  // c76b
+} // c77
+packet
+    // c78
+Logout
+    // c79
+{ // c80
+InSym79 // c81
+{ int32
+    // c83
+Qty
+    // c84
+, Fill // c86a
+  // c86b
+, // c87
+char[ 3
+    // c89
 ]
-: _x	[
-""" ++ [128512]%N ++ runes_of_ascii """ ,""a\""b""//	t
-, 0123456789 ] // c
-: // @lengthOf(
-_x ,65535 : As 255 : stringy	,
-}	, calculatedFrom// @lengthOf(
-{ char[]
-    matchKey
-    @calculatedFrom( """ ++ [128512]%N ++ runes_of_ascii """ // c
-) , u32
-    u8x @lengthOf( i8i8
-    ), f32a // c
-options1
-    `line1
-line2`
-, float64	rootA // " ++ [27880; 37322]%N ++ runes_of_ascii "
-,
-//	t
-//	t
-}, @tag( 0 ) @lengthOf( Z9_
-) T Foo `" ++ [233]%N ++ runes_of_ascii "` ,match T	as
-Packet { 3 : u8x
-    , 4294967296 //x
-: matchKey,
-    """ ++ [233]%N ++ runes_of_ascii "t" ++ [233]%N ++ runes_of_ascii """
-: Foo// @lengthOf(
-, ""a\""b"":
-repeatCount
-    , 7 : stringy  , }// trailing space 
-, @leftPad( //
-'\x00'	)repeat
-    pack ,  } packet x { @lengthOf(// packet A { u8 x, }
-falsey )repeat int32 a1 // " ++ [27880; 37322]%N ++ runes_of_ascii "
-,
-    @leftPad(
-    ) repeat f32a,  match	Foo as// packet A { u8 x, }
-calculatedFrom
-    {""x y"" : calculatedFrom 7 : len , ""abc""
-    :  charz
-,
-}  , uint8x
-,
-@lengthOf(	o ) // " ++ [27880; 37322]%N ++ runes_of_ascii "
+    // c90
+x // c91a
+  // c91b
+, // c92
 repeat
-string_  {zchar[ 7] Packet
-@calculatedFrom( // trailing space 
-""x y"") ,repeat
-    string charz , float64 _x @calculatedFrom( ""1""
-    ),}
-    // `tick` ""quote"" 'q'
-    , crc,char[ 65535 ] metadata @calculatedFrom( ""\n"" ) `" ++ [28040; 24687; 31867; 22411]%N ++ runes_of_ascii "` ,
-repeat uint64 msg_type
-//x
-//x
-`{ , }` ,char[
-1] charz
-    ,@rightPad ( '\x00')
-    repeat i32 o // `tick` ""quote"" 'q'
-`crlf
-line`, }
-MetaData i8i8
-{rootA packetx `doc` ,  x As , }//
-root packet u128
-// @lengthOf(
-// @lengthOf(
-{ } packet falsey { u @lengthOf( i8i8
-),@lengthOf(
-u )f32
-    //	t
-    Header , @calculatedFrom( ""`tick`""  )
-stringy
-@calculatedFrom( """ ++ [233]%N ++ runes_of_ascii "t" ++ [233]%N ++ runes_of_ascii """
-    ) `two words` , char[ 65535 ]string_ @lengthOf(lengthOf
-    ), Pad u128 , Packet
-    `
-`
-,// `tick` ""quote"" 'q'
-@calculatedFrom( ""abc""// trailing space 
-) char[
-00
-]
-roots`line1
-line2`
-, @tag(// trailing space 
-7 )char[]trueish @calculatedFrom( ""\n"")
-    , @calculatedFrom( ""packet""
-    ) @lengthOf( As ) char[ 3 ] // a // b
-charz @lengthOf(options1 ) , u32 _x @calculatedFrom( ""a\\"" )`u8 x,` ,}
-")).
-Eval vm_compute in ("<<<M28>>>" ++ check (runes_of_ascii "packet
-tag { repeat
-    //
-    T MetaDataX
-    , @calculatedFrom(
-//
-/// triple
-""`tick`""  ) @tag( 007 ) leftPad `tab	here` , @tag( 0123456789  )
-char x , @tag(0 ) u64 tag
-    ,
-i8 roots
-    // a // b
-    ,
-    @lengthOf(
-float ) @tag( 10 )
-// c
-// `tick` ""quote"" 'q'
-body { chars
-{repeat int8  body , }  , repeat Header {char[]
-    leftPad	, },	match  Logon as zchar  { 4294967296 :
-    len , ""a\""b"":A //
-00
-: x_y_z,
-} , repeat i16	options1
-, }
-    , @calculatedFrom( """ ++ [128512]%N ++ runes_of_ascii """)@rightPad ( '0'
-) i16 Pad , //
-int64
-    As @lengthOf(
-crc ) , } MetaData x_y_z {u crc
-, } root packet
-Z9_{ @calculatedFrom( ""{,}"" ) tag, @lengthOf( lengthOf ) zchar[  42 ] crc //x
-`" ++ [233]%N ++ runes_of_ascii "`
-// a // b
-// @lengthOf(
-, char[ 007 ] options1 ,
-}packet
-    // `tick` ""quote"" 'q'
-    x {char	trueish
-    ,	char[] packetx @calculatedFrom(""" ++ [28040; 24687]%N ++ runes_of_ascii """)
-    `line1
-line2` ,  zchar[
-1
-    ]
-    Foo // " ++ [128512]%N ++ runes_of_ascii " emoji
-, zchar[ 00 ]
-A , match msg_type as tag { """" : leftPad , [ """ ++ [128512]%N ++ runes_of_ascii """ ,
-    0 ,10
-    ,  3//	t
-] :
-Z9_,  ""it's"":	float , 10 : calculatedFrom ""x y"" // @lengthOf(
-:
-    f32a
-    007	: roots
-    , } // `tick` ""quote"" 'q'
-,} packet
-    u{ // trailing space 
-@calculatedFrom( ""\n"" ) @calculatedFrom( ""a\""b"" )	i64_
-rootA , match // @lengthOf(
-x as Logon {
-    1
-:
-    body,
-""a\\"" /// triple
-: _x ""packet"" : BodyLength,
-},
-    //x
-    @rightPad ( '\x00'//x
-) @calculatedFrom( """ ++ [128512]%N ++ runes_of_ascii """ )	repeat stringy { match
-//x
-// packet A { u8 x, }
-T as float { ""a\\"" : len
-    0:
-BodyLength , [ ""it's""
-, ""{,}"" , 255 // a // b
-, 0123456789, ""a\\"" ] :
-    Logon, 3:rootA
-    // " ++ [27880; 37322]%N ++ runes_of_ascii "
-    ,
-    }
-//
-// packet A { u8 x, }
+    // c93
+InNote29 // c94a
+  // c94b
+{ // c95a
+  // c95b
+i16
+    // c96
+price // c97a
+  // c97b
 ,
-} ,//
-u16 uint8x `{ , }`,
-// trailing space 
-//x
-@leftPad
-    // a // b
-    (
-'0' )  string i64_@lengthOf(  stringy  ),
-// `tick` ""quote"" 'q'
-// @lengthOf(
-u64 leftPad@calculatedFrom( // " ++ [27880; 37322]%N ++ runes_of_ascii "
-""a	b"" ) , repeat // @lengthOf(
-Header MetaDataX `a\`
-, @lengthOf(stringy
-    )	Packet
-leftPad , @tag( 00 ) repeat zchar _x `tab	here` , i32	matchKey , }
-")).
-Eval vm_compute in ("<<<M3845>>>" ++ check (runes_of_ascii "MetaData trueish {
-    f32 a1 `it's`,
-    A lengthOf `tab	here`,
+    // c98
+Ack , // c100a
+  // c100b
+f64
+    // c101
+x // c102a
+  // c102b
+, zchar[ // c104a
+  // c104b
+8 ] // c106a
+  // c106b
+count
+    // c107
+,
+    // c108
+} // c109
+,
+    // c110
 }
-
-MetaData BodyLength {
-    char[0123456789] stringy,
+    // c111
+, // c112
 }
-
-packet string_ {
-    @rightPad('0')
-    asx,
-    @calculatedFrom(""abc"")
-    repeat char[4294967296] packetx,
-    // a // b
-    // " ++ [27880; 37322]%N ++ runes_of_ascii "
-    repeat o {
-        // `tick` ""quote"" 'q'
-        int64 u8x,
-        repeat u32 leftPad `a\`,// packet A { u8 x, }
-        char[] charz `doc`,
-        zchar[65535] lengthOf @calculatedFrom(""a\\""),
-    },
-    // " ++ [27880; 37322]%N ++ runes_of_ascii "
-    leftPad @calculatedFrom(""// no comment"") `// not a comment`,
-    int32 int,
-    pack {
-        zchar,
-    },
-    repeat zchar[65535] x,
-    @rightPad('0')
-    //x
-    // c
-    float32 Z9_,
-    @calculatedFrom(""`tick`"")
-    match uint8x as Header {
-        [42] : f32a,
-        4294967296 : matchKey,
-        """ ++ [28040; 24687]%N ++ runes_of_ascii """ : tag,
-        1 : body,
-    },
-    @tag(007)
-    @calculatedFrom(""a\\"")
-    @lengthOf(metadata)
-    repeat chars,
-}
-
-packet roots {
-    char[007] Foo @lengthOf(zchar) `line1
-    line2`,
-    @tag(255)
-    match crc as lengthOf {
-        [""// no comment""] : Header,
-        //x
-        1 : crc,
-        ""\n"" : options1,
-        [
-            1, 00, 1, 42, 65535,
-            """ ++ [28040; 24687]%N ++ runes_of_ascii """
-        ] : Z9_,
-    },
-    zchar[4294967296] As `say ""hi""`,
-    @lengthOf(stringy)
-    chars {
-        float32 u8x,
-    },
-    char[255] Pad @lengthOf(u8x),
-    int64 metadata,
-    // c
-    uint8 x_y_z @lengthOf(Header) `two words`,
-    repeat zchar[42] calculatedFrom `it's`,
-    @rightPad('\x00')
-    repeat crc {
-        // trailing space 
-        repeat As {
-            i64_ `line1
-            line2`,
-        },
-    },
-}")).
-Eval vm_compute in ("<<<M1217>>>" ++ check (runes_of_ascii "packet //x
-u8x
-{ //x
-@tag( 10 )
-    char[7]
-    // trailing space 
-    MetaDataX	, match // c
-Z9_ as Header{""a\\"" :
-    stringy
-, ""// no comment"" : u128 // trailing space 
-, 0123456789
-    :
-matchKey,10	: BodyLength // packet A { u8 x, }
-,	65535: asx
-    // trailing space 
-    , 00 : pack//
-,	}  , @tag(
-255)msg_type `it's` , @lengthOf(
-A ) leftPad
-@lengthOf( Header) `crlf
-line`, @calculatedFrom( ""1""
-//x
-/// triple
-) repeat
-int8 o
-    // " ++ [128512]%N ++ runes_of_ascii " emoji
-    ,  @rightPad(
-'\x00')	string
-pack
-    @calculatedFrom(  ""// no comment""), @lengthOf( Z9_) match	u128
-//	t
-//	t
-as BodyLength { //
-[""\n"" ,
-""a\\"" ]
-: Logon
-,	0 : As , } ,char[] x ,} packet  Packet {
-    @calculatedFrom(""// no comment"" ) x_y_z,
-    @leftPad(
-) zchar[ 65535 ] As
-    @calculatedFrom(
-""1""
-    // " ++ [128512]%N ++ runes_of_ascii " emoji
-    ) `tab	here`  ,  zchar[ 10 ]	f32a ,	@tag(7  ) char[0123456789 ]
-    matchKey
-`say ""hi""`
-    ,
-} root packet string_
-{ // " ++ [27880; 37322]%N ++ runes_of_ascii "
-@tag( // @lengthOf(
-0
-// c
-//	t
-)	asx
-// trailing space 
-// c
-`// not a comment`
-// packet A { u8 x, }
-//
-, zchar[ 65535
-] Header,
-    @tag( 10 ) repeat zchar trueish
-, repeat string // packet A { u8 x, }
-Packet `{ , }`, char[] len
-, lengthOf len `` , packetx @lengthOf(
-    // `tick` ""quote"" 'q'
-    float)`a\`	, @calculatedFrom(
-""" ++ [28040; 24687]%N ++ runes_of_ascii """ ) matchKey  @calculatedFrom( """ ++ [233]%N ++ runes_of_ascii "t" ++ [233]%N ++ runes_of_ascii """ ), @rightPad ( ' '
-// " ++ [128512]%N ++ runes_of_ascii " emoji
-// " ++ [27880; 37322]%N ++ runes_of_ascii "
+    // c113
+root // c114
+packet Logon { // c117a
+  // c117b
+zchar[ // c118a
+  // c118b
+1 // c119
+] sym
+    // c121
+, u32 // c123
+count // c124
+,
+    // c125
+u16 tag7
+    // c127
+@lengthOf( Body // c129
 )
-// @lengthOf(
-// c
-options1 @calculatedFrom( """ ++ [28040; 24687]%N ++ runes_of_ascii """) , } MetaData Header
-    {
-    Logon  string_ , }
-")).
-Eval vm_compute in ("<<<M374>>>" ++ check (runes_of_ascii "packet BodyLength// packet A { u8 x, }
-{ leftPad lengthOf ,	float rootA `it's`	, @leftPad (
-    '0' ) repeat
-    BodyLength ,@rightPad
-(
-    ) i16// a // b
-falsey @lengthOf(// a // b
-i64_ ) , // `tick` ""quote"" 'q'
-repeat
-char[ 0123456789 ]uint8x , repeat
-    // " ++ [27880; 37322]%N ++ runes_of_ascii "
-    f64 i64_,	a1 tag`" ++ [233]%N ++ runes_of_ascii "` ,char[ 10 ]packetx
-`say ""hi""`
+    // c130
+, // c131a
+  // c131b
+match count as // c134a
+  // c134b
+Body // c135a
+  // c135b
+{
+    // c136
+[
+    // c137
+122 // c138a
+  // c138b
 ,
-    repeat  tag metadata
-`tab	here` , }
-    /// triple
-    options {
-crc = """"
-    ;
-}
-    packet int
-{ repeat zchar[	255
-    ]	i64_ `two words`//x
+    // c139
+152
+    // c140
+] // c141
+: // c142a
+  // c142b
+Ack
+    // c143
+, 118 // c145a
+  // c145b
+: Logout , // c148a
+  // c148b
+61 // c149
+: // c150
+Quote // c151a
+  // c151b
+, // c152a
+  // c152b
+161 // c153a
+  // c153b
+: Fill
+    // c155
 ,
-    string tag@lengthOf( // a // b
-Header )
-,char chars ,
+    // c156
+} // c157
+, // c158a
+  // c158b
+u32 // c159
+Acct @calculatedFrom( ""CRC32"" ) // c163a
+  // c163b
+, } ")).
+Eval vm_compute in ("<<<M4284>>>" ++ check (runes_of_ascii "MetaData 
+msg_type
+
+{ trueish
+i8i8  ,
+
+    float32
+    msg_type , options1 
+BodyLength`two words`  ,u128
+
+    body `u8 x,`
+
+    ,
+
+}  // trailing space 
+
+packet  
+  // c
+    Logon {
+repeat i32
+    metadata  `
+` ,@calculatedFrom(
+	""x y""  )
+    // c
+	i64_, i64	int 
 @lengthOf(
-    crc ) match asx as Foo{ 7  : BodyLength , ""packet"" : Z9_
-,007 :
-    matchKey ,} ,
-uint16 metadata// a // b
+	pack
+	) 
 ,
-i64_ {	repeat
-u8
-msg_type, stringy {char[ 0123456789 ] // c
-o @calculatedFrom(
-""\n"" ) `" ++ [233]%N ++ runes_of_ascii "` ,}
+	char[]charz	, 
+        // @lengthOf(
+
+match
+
+_x as 
+    // a // b
+
 /// triple
-// packet A { u8 x, }
-, zchar[
-00]
-    stringy	`line1
-line2`
-, } ,
-@leftPad//
-('0') match uint8x as u128 {
-[ 1 // a // b
-, ""abc"" ]
-    : _x  ""a	b"" :Packet
-    // c
-    3 : _x //	t
-, ""`tick`"" :
-packetx ,
-""\n""
-: Header ,  } ,
-x
-    // c
-    @calculatedFrom(
-    /// triple
-    ""\n"" ) ,zchar[ 65535 ]
-    Packet//x
+	pack
+
+    {
+    3
+	:
+
+    body 
+,  [""// no comment"",""a\""b""  ]
+:uint8x
 ,
-} MetaData Logon{
-    } packet packetx {
-@calculatedFrom( ""a\\"" )
-match roots as Foo { [""\n"", 4294967296 ] : asx ,00
-:  o , ""{,}"" :Header ,255 : packetx , [255,4294967296	] :MetaDataX
-    ,  } , }")).
-Eval vm_compute in ("<<<M4396>>>" ++ check (runes_of_ascii "options {
-    a1 = 4294967296;
+
+    3
+
+: lengthOf
+	, }
+	, matchKey , 
+roots
+
+{
+	_x	@lengthOf(
+Pad
+)	,	repeat a1
+_x
+, 
+},
+	string 
+T
+	,
+
+    @lengthOf( 
+//
+// a // b
+  	Pad)
+
+match  f32a
+
+as
+    u// c
+    {  // a // b
+	[ 10 
+        // a // b
+	,
     //	t
-    u = """"
-    BodyLength = 0123456789;
+  """ ++ [233]%N ++ runes_of_ascii "t" ++ [233]%N ++ runes_of_ascii """,// a // b
+		""`tick`""
+    ,
+
+255
+	, 0123456789
+
+    , ""1""
+, 	 //
+	""a	b"" 
+,
+
+3  ]  :options1  }, }
+	MetaData 
+u128 { 
+char[  10
+
+]
+    tag
+
+    , 
+pack 
+stringy
+    ,
+
+char  pack  ,
+	} root  packet	Header 	 //
+  {match
+Foo 
+as
+    Logon
+    {  [ 
+""" ++ [233]%N ++ runes_of_ascii "t" ++ [233]%N ++ runes_of_ascii """
+
+, ""CRC32""	]:falsey	[  //x
+    """ ++ [233]%N ++ runes_of_ascii "t" ++ [233]%N ++ runes_of_ascii """	,
+/// triple
+
+	// a // b
+    """"]
+:	u128
+	, [	00
+
+    ,  ""a\""b"" 
+,
+	7,
+""it's""
+
+,	""" ++ [28040; 24687]%N ++ runes_of_ascii """ ,
+    00 , 
+      // " ++ [128512]%N ++ runes_of_ascii " emoji
+    /// triple
+    255 , 00]	: 
+asx,
+""// no comment"":  charz
+
+    ,
+
+    ""1""
+    :Packet ,
+
+    [""// no comment"" , 1
+]
+    :zchar,
+}
+    ,  @lengthOf(u8x  // a // b
+  ) @tag(
+007 // @lengthOf(
+    )
+    @lengthOf(
+pack
+	)
+	u8 _x
+	`doc` ,  zchar[
+0123456789
+	// a // b
+    	]
+    Packet
+@lengthOf(
+
+o
+)
+,
+
+    match chars  as	msg_type
+{	""\n"" :
+
+lengthOf ,
+0123456789 
+
+    // packet A { u8 x, }
+  // trailing space 
+	  :
+a1
+, 
+[4294967296 ]
+    :stringy 
+, [
+    ""`tick`""
+
+    , ""`tick`"" 
+	// `tick` ""quote"" 'q'
+    	,
+
+0 
+] // @lengthOf(
+
+  :
+
+    /// triple
+      falsey  ,[	// `tick` ""quote"" 'q'
+  	007 
+, 
+      // a // b
+
+65535 ,
+	65535
+	,
+10
+
+    ,  ""abc"", 3
+
+    ]
+
+:
+    body ,
+}
+    ,
+zchar[
+
+    10 ]
+	// " ++ [27880; 37322]%N ++ runes_of_ascii "
+    Logon
+    , }packet
+Packet 
+{
+    }  // " ++ [27880; 37322]%N ++ runes_of_ascii "
+ 
+")).
+Eval vm_compute in ("<<<M3895>>>" ++ check (runes_of_ascii "options {
+    metadata = string;
 }
 
-packet float {
-    char[10] calculatedFrom `say ""hi""`,
-}
-
-packet charz {
-    u {
-        match string_ as crc {
-            0 : zchar,
-            //x
-            4294967296 : u,
-            255 : falsey,
+packet Header {
+    @leftPad(' ')
+    string i8i8 `it's`,
+    @lengthOf(roots)
+    u @calculatedFrom(""" ++ [128512]%N ++ runes_of_ascii """),
+    @tag(65535)
+    match Pad as stringy {
+        3 : f32a,
+        ""a\\"" : i8i8,
+        [""" ++ [128512]%N ++ runes_of_ascii """, 7] : rootA,
+        // " ++ [128512]%N ++ runes_of_ascii " emoji
+        ""a\""b"" : x_y_z,
+        [0123456789, ""a	b""] : Logon,
+    },
+    metadata {
+        char[] chars @calculatedFrom(""" ++ [128512]%N ++ runes_of_ascii """) `two words`,
+        repeat asx {
+            msg_type {
+                int64 _x `
+                `,
+                repeat Z9_,
+                uint16 leftPad `line1
+                line2`,
+                trueish x_y_z ``,
+            },// trailing space 
+            zchar[4294967296] chars `crlf
+            line`,
+            Logon `a\`,
         },
-        len @lengthOf(asx) `tab	here`,
-        o @calculatedFrom(""\n""),
-    },// " ++ [128512]%N ++ runes_of_ascii " emoji
+        char[] body,
+    },
+    repeat u {
+        int {
+            repeat zchar {
+                f64 lengthOf @calculatedFrom(""abc"") `" ++ [233]%N ++ runes_of_ascii "`,/// triple
+            },
+            As @calculatedFrom(""{,}""),
+            repeat char[] metadata,
+            string calculatedFrom `two words`,
+        },
+    },
+    @rightPad('0')
+    // " ++ [27880; 37322]%N ++ runes_of_ascii "
+    @rightPad('0')
+    @lengthOf(x)
+    repeat leftPad `// not a comment`,
+    @rightPad(' ')
+    o Z9_,
+}
+
+packet Pad {
+    metadata trueish `u8 x,`,
 }
 
 options {
-    T = false;
+    len = i64
+    f32a = ""x y"";
+    matchKey = ""packet"";
 }
 
-packet calculatedFrom {
-    match u8x as leftPad {
-        """ ++ [233]%N ++ runes_of_ascii "t" ++ [233]%N ++ runes_of_ascii """ : packetx,
-        ""\n"" : lengthOf,
-        007 : pack,
-        007 : BodyLength,
-        ""a\\"" : charz,
-    },
-    @tag(7)
-    body {
-        repeat char[7] _x `" ++ [28040; 24687; 31867; 22411]%N ++ runes_of_ascii "`,
-    },
-    @tag(42)
-    string tag `crlf
-        line`,
-    @tag(00)
-    repeat char[0] calculatedFrom `tab	here`,
-    u16 Z9_ @calculatedFrom(""{,}""),
-    @calculatedFrom(""\" ++ [233]%N ++ runes_of_ascii """)
-    match Logon as Z9_ {
-        [""1"", ""1""] : options1,
-    },
-    T metadata,
-    _x {
-        // @lengthOf(
-        f32 x,
-        int64 a1 @lengthOf(_x) `u8 x,`,
-        uint8x {
-            _x @lengthOf(charz),
-            int64 trueish,
-            char[0] roots @calculatedFrom(""// no comment"") `crlf
-                        line`,
-            u,
-        },
-    },
-}")).
-Eval vm_compute in ("<<<M631>>>" ++ check (runes_of_ascii "packet pack {
-    }options {	As
-//
-// " ++ [128512]%N ++ runes_of_ascii " emoji
-= ""\" ++ [233]%N ++ runes_of_ascii """ ; }
-    root packet lengthOf{
-    @tag(65535 ) @calculatedFrom( """ ++ [233]%N ++ runes_of_ascii "t" ++ [233]%N ++ runes_of_ascii """ ) @calculatedFrom(""abc"" )	repeat string
-msg_type
-    ,
-    @calculatedFrom(
-    """ ++ [233]%N ++ runes_of_ascii "t" ++ [233]%N ++ runes_of_ascii """)
-char[ 255
-] // packet A { u8 x, }
-Logon , u64 pack@calculatedFrom( ""a\\"" /// triple
-), @rightPad (
-    '0' ) T
-{ zchar[ 3 ] u8x @calculatedFrom( ""CRC32""
-)`two words` , o{_x {
-    // " ++ [27880; 37322]%N ++ runes_of_ascii "
-    float32 calculatedFrom
-    , } ,
-    repeat
-int64 u128 ,float32 string_ @lengthOf(msg_type )`say ""hi""` , } ,
-} ,i16 charz`a\`//
-, @lengthOf( x	) leftPad {
-As { int64 i8i8
-,
-} ,
-    // packet A { u8 x, }
-    } ,
-    @tag( 7	) @tag( 7
-    /// triple
-    ) x_y_z@lengthOf( body)
-    ,@tag(
-007 )repeat	calculatedFrom _x ,@calculatedFrom(	""\n"" )
-    repeat
-    u8
-trueish , i16
-calculatedFrom `it's`
-    , }
-packet	A { match As as chars {""1"" :options1 ,} , } packet Packet { @leftPad
-    // " ++ [27880; 37322]%N ++ runes_of_ascii "
-    ( '\x00'
-    ) float64 // c
-matchKey ,
-zchar[
-65535	] Pad`" ++ [233]%N ++ runes_of_ascii "` ,
-    repeat
-uint32 options1,	@calculatedFrom(
-    ""// no comment"" ) char[] metadata `// not a comment`
-,Header @calculatedFrom( ""packet"" ) ``
-,  }
-// a // b
-")).
-Eval vm_compute in ("<<<M812>>>" ++ check (runes_of_ascii "
-MetaData Packet //
-{ stringy body ,
-    //	t
-    x_y_z
-    matchKey , zchar[
-// " ++ [27880; 37322]%N ++ runes_of_ascii "
-// `tick` ""quote"" 'q'
-007 ] MetaDataX , // " ++ [128512]%N ++ runes_of_ascii " emoji
-u16 u128
-    `u8 x,`, stringy i64_
-    , char[]	Z9_  `two words` , } MetaData body { float32 Header
-    , }options
-    {trueish //x
-= false ; x_y_z = // c
-7 Packet =	false i8i8=
-//x
-// " ++ [128512]%N ++ runes_of_ascii " emoji
-zchar[255 ] tag =
-    char[] ; } packet// c
-crc { repeat  char[
-    0 ]
-    x ,
-    repeat float64 packetx , match	As as len{	[255 ]
-:
-Z9_
-    , // " ++ [27880; 37322]%N ++ runes_of_ascii "
-""{,}"" :
-//
-// " ++ [27880; 37322]%N ++ runes_of_ascii "
-MetaDataX ,  [ 00 , ""a	b"", 255 ] :Pad , 3:
-    body , }  , u128 @calculatedFrom(
-    ""CRC32"")  , // `tick` ""quote"" 'q'
-@tag(10) metadata {  repeat trueish x`line1
-line2`// " ++ [27880; 37322]%N ++ runes_of_ascii "
-,
-    u @calculatedFrom(""it's"" )
-, match
-// packet A { u8 x, }
-// " ++ [27880; 37322]%N ++ runes_of_ascii "
-trueish as _x { 42 :
-    /// triple
-    o [
-""CRC32""]
-: rootA  , } /// triple
-, } , tag
-    {Z9_{
-zchar[
-    // trailing space 
-    3  ]stringy`tab	here` , } , } //x
-, matchKey u8x,  repeat
-int64	metadata `{ , }`
-, @leftPad( '\x00')
-T int
-    , @calculatedFrom( ""abc"" ) zchar[ 4294967296 ] charz
-    ,// " ++ [128512]%N ++ runes_of_ascii " emoji
-}")).
-Eval vm_compute in ("<<<M3674>>>" ++ check (runes_of_ascii "MetaData f32a {
-    uint8 x,
-    f64 As `" ++ [233]%N ++ runes_of_ascii "`,
-    i64 f32a `u8 x,`,
-    uint32 string_ `crlf
-        line`,
-    char[10] pack `a\`,
-    Packet lengthOf,
-}
-
-root packet MetaDataX {
-    i32 u8x `tab	here`,
-    char[] stringy @lengthOf(repeatCount) `crlf
-        line`,
-    @rightPad()
-    @lengthOf(Foo)
-    char[65535] body,
-    repeat pack {
-        rootA `it's`,
-        match msg_type as x_y_z {
-            1 : i64_,
-            0123456789 : Logon,
-            [""CRC32""] : A,
-            1 : _x,
-            // a // b
-            [42] : repeatCount,
-            ""a	b"" : pack,
-        },
-        char[4294967296] lengthOf @lengthOf(options1),
-    },
+packet lengthOf {
+    char[7] MetaDataX @lengthOf(BodyLength),
+    int8 As @lengthOf(calculatedFrom) ``,
+    repeat char[] As,
+    body @calculatedFrom(""abc""),
+    repeat float64 MetaDataX `" ++ [28040; 24687; 31867; 22411]%N ++ runes_of_ascii "`,
     @tag(4294967296)
-    @calculatedFrom(""" ++ [128512]%N ++ runes_of_ascii """)
-    // " ++ [128512]%N ++ runes_of_ascii " emoji
+    match u8x as crc {
+        [""\n"", 65535] : _x,
+        255 : roots,
+    },
+}//	t")).
+Eval vm_compute in ("<<<M467>>>" ++ check (runes_of_ascii "options
+{ metadata = char[
+4294967296
+    ] ;}  packet f32a
+{
+    match Z9_ as repeatCount
+    { 3 : crc
+,""{,}"" :pack , }, char[]
+calculatedFrom
+    @lengthOf( // @lengthOf(
+MetaDataX	)
+, @calculatedFrom( ""`tick`""
+    )// " ++ [128512]%N ++ runes_of_ascii " emoji
+x_y_z
     // " ++ [27880; 37322]%N ++ runes_of_ascii "
-    repeat string u,
-    @lengthOf(f32a)
-    @tag(007)
-    @tag(7)
-    msg_type Pad,
-}
-
-MetaData roots {
-    u64 MetaDataX,
-}
-
-packet roots {
-    @tag(255)
-    char[0123456789] Logon `" ++ [28040; 24687; 31867; 22411]%N ++ runes_of_ascii "`,
-    body @lengthOf(u8x) `two words`,
-    @lengthOf(Z9_)
-    packetx @calculatedFrom(""" ++ [28040; 24687]%N ++ runes_of_ascii """),
-}")).
-Eval vm_compute in ("<<<M154>>>" ++ check (runes_of_ascii "options { } packet
-    //	t
-    falsey /// triple
-{	i64 calculatedFrom
+    , i8 leftPad ,  i8 uint8x @calculatedFrom(
+""packet"" ) // trailing space 
+`// not a comment`,
+@calculatedFrom(""""  ) @tag( 007)	char[ 10
+    ] T
     @calculatedFrom(
-    //
-    ""a\\"" )
-`it's` ,
-char[ 00 ] falsey ,	@calculatedFrom(""1"" ) @calculatedFrom( ""{,}""
-    )
-i32	float	,@tag(3 //
+"""" //
+) ,u8x {zchar
+    @lengthOf( // packet A { u8 x, }
+u )
+    `{ , }`
+    // c
+    , },
+    float`say ""hi""`
+    ,i64 packetx,@lengthOf(BodyLength ) string  calculatedFrom , } packet
+MetaDataX // " ++ [27880; 37322]%N ++ runes_of_ascii "
+{ @calculatedFrom( ""{,}"" )
+match/// triple
+metadata as //
+_x
+    { ""1""	: // c
+uint8x  ,""{,}"" :
+falsey } ,} packet // " ++ [27880; 37322]%N ++ runes_of_ascii "
+Logon {  o @lengthOf( i8i8 )  , @rightPad ( '0'
 )
-    @calculatedFrom(  ""CRC32"" ) int64 options1 @lengthOf(roots ) `two words` , @calculatedFrom(""a\\""	) repeat trueish { repeat charz
-,trueish // trailing space 
-tag //x
-`two words` ,
-repeat u64 Logon  `" ++ [28040; 24687; 31867; 22411]%N ++ runes_of_ascii "`,},
-    @leftPad(
-    //x
-    '0'
-)// " ++ [128512]%N ++ runes_of_ascii " emoji
-@rightPad (
-// " ++ [128512]%N ++ runes_of_ascii " emoji
-//
-' ' )
-//	t
-//
-u roots,repeat
-A	{i32 int
-@lengthOf( zchar
-)`" ++ [233]%N ++ runes_of_ascii "`
-    ,
-    }//	t
-, u64 A , @tag( 10 ) char[]
-u8x, zchar[
-10 ] pack
-//
-// " ++ [27880; 37322]%N ++ runes_of_ascii "
-@calculatedFrom(""1"" ) `say ""hi""` ,	} packet Z9_//	t
-{// " ++ [27880; 37322]%N ++ runes_of_ascii "
-@leftPad( '0')  repeat
+    int64
+msg_type , char calculatedFrom
+, @tag( 255 )i8i8  @calculatedFrom( ""x y"" )
+    ,i8i8 // @lengthOf(
+@calculatedFrom( ""\" ++ [233]%N ++ runes_of_ascii """
+    )	, @tag( 0123456789
+    ) lengthOf ,@lengthOf( // `tick` ""quote"" 'q'
+o ) @tag(
+10 )
+    match options1 as u{ ""1"" :
+Pad  , // c
+""\" ++ [233]%N ++ runes_of_ascii """:metadata , // @lengthOf(
+} , @tag( // " ++ [128512]%N ++ runes_of_ascii " emoji
+1) @tag(
+65535 ) @lengthOf( Packet ) repeat T , @tag( 4294967296 )
+match x_y_z as uint8x {
+""{,}"":uint8x
+    7 : metadata, 7: i64_ [""" ++ [233]%N ++ runes_of_ascii "t" ++ [233]%N ++ runes_of_ascii """ ,""CRC32"" , // trailing space 
+""packet"" , 00
+    ,65535 , ""x y""	, // " ++ [27880; 37322]%N ++ runes_of_ascii "
+""packet"" //x
+]	:metadata , // packet A { u8 x, }
+""packet"" :
+    uint8x ,	} , repeat
+    x ,	}")).
+Eval vm_compute in ("<<<M874>>>" ++ check (runes_of_ascii "// `tick` ""quote"" 'q'
+packet Pad
+    { pack// " ++ [27880; 37322]%N ++ runes_of_ascii "
+{ char repeatCount
+    @lengthOf( a1 )
+    ,int16 Pad ,
+    int16
+    calculatedFrom ,
+    } , @lengthOf( tag)
+uint16 repeatCount
+    ,	@tag( 10) char[ 007 ] trueish
 // a // b
 // @lengthOf(
-As charz
-, body @calculatedFrom( ""it's""
-    )`crlf
-line` ,
-    // " ++ [27880; 37322]%N ++ runes_of_ascii "
-    @leftPad ('0'
-) zchar[ 4294967296 ]
-A @calculatedFrom(""packet""
-    // trailing space 
-    ) `" ++ [233]%N ++ runes_of_ascii "`  , repeat body
-    Header`" ++ [233]%N ++ runes_of_ascii "`,}
-")).
-Eval vm_compute in ("<<<M3642>>>" ++ check (runes_of_ascii "
-
-  options{LittleEndian=
-false 
-;FixedStringPadFromLeft
-
-=false
-;
-
-    FixedStringPadChar	= ' '  ;}  packet 
-Fill {
-
-uint16
-Qty,
-	uint64 clOrdID  ,
-    repeat  i64 Flags	,	}
-packet
-	Ack
-	{zchar[
-	7 ] clOrdID
-	,
-u64 lastPx
-
-    , char[]	Note
-,
-
-repeat Fill
-
-    ,
-int32 
-count	,	}packet  Quote{
-
-    u8 venue 
-, InRef40 
-{ char[]
-
-    Qty,
-
-}
-	,zchar[
-5]
-	Flags ,@rightPad
-
-    (
-    '\x00'
-    )char[
-
-12
-	]
-msgKind
-
-    ,
-
-    }
-
-    packet
-
-Logout {  InSym79{
-int32
-    Qty
-, Fill 
-,  char[
-3]x
-,repeat
-InNote29
-    {
-	i16	price,
-Ack , 
-f64 x
-,	zchar[	8 ]  count, } ,
-    }	,
-	}	root
-	packet 
-Logon
-	{
-	zchar[
-
-1
-
-    ] 
-sym
-,
-
-    u32 count,
-
-    u16	tag7
-@lengthOf( Body
-
-    )  ,
-
-    match count
-
-    as
-
-    Body
-{
-
-    [122 , 152] :
-
-Ack, 118:Logout
-	,
-	61
-	:  Quote
-	, 161:
-
-Fill
-,
-
-    }
-,
-	u32
-
-    Acct@calculatedFrom(
-""CRC32""
-),} ")).
-Eval vm_compute in ("<<<M748>>>" ++ check (runes_of_ascii "MetaData	metadata{/// triple
-packetx Packet ,
-    // trailing space 
-    chars body , char[]MetaDataX ,u32
-    stringy ,float32
-packetx `" ++ [28040; 24687; 31867; 22411]%N ++ runes_of_ascii "` , }options {
-    lengthOf
-    = uint16 ; pack
-='0'
-; charz //x
-=
-char[]
-    ;	u // trailing space 
-= f64 ;
-    options1  = float32
-    ; }root // packet A { u8 x, }
-packet charz //x
-{ repeat
-uint32 float, stringy , // packet A { u8 x, }
-uint8x  {chars
-    { match Foo as u8x {""a\\"":
-int // a // b
-,
-    }
-    , string
-Z9_  @calculatedFrom(
-    // packet A { u8 x, }
-    """ ++ [28040; 24687]%N ++ runes_of_ascii """ ) `// not a comment` ,
-match trueish
-as MetaDataX {
-[ 0  ,  ""CRC32"" ,007
-    // a // b
-    ,007	, 0123456789 ] // packet A { u8 x, }
-: Foo
-    255 : falsey
-    , 007 :
-    _x 255 :
-    Header
-    007 :lengthOf""{,}""  : Header , } ,
-}
-, zchar[ 65535  ] leftPad `line1
-line2` , char[ 007
-] Z9_  @lengthOf(
-u8x  ) ,
-} , }
-")).
-Eval vm_compute in ("<<<M3815>>>" ++ check (runes_of_ascii "options {
-    Foo = ""\" ++ [233]%N ++ runes_of_ascii """
-    roots = ""`tick`"";
-    crc = ""packet"";
-    falsey = 1
-    float = u32;
-}
-
-packet options1 {
-    match Header as Packet {
-        [""abc""] : Header,
-        ""`tick`"" : i64_,
-        [7, 3, """"] : Z9_,
-        [1, ""// no comment"", ""x y"", """ ++ [28040; 24687]%N ++ runes_of_ascii """, ""a	b""] : x_y_z,
-        ""a\""b"" : float,
-    },// @lengthOf(
-    i8i8 _x,
-    @rightPad('\x00')
-    zchar[0] string_,
-}
-
-packet u8x {
-    @lengthOf(packetx)
-    char[42] _x,
-    f64 matchKey `it's`,
-    match repeatCount as roots {
-        // packet A { u8 x, }
-        // " ++ [27880; 37322]%N ++ runes_of_ascii "
-        [""CRC32"", """ ++ [128512]%N ++ runes_of_ascii """] : i8i8,
-    },
-    @lengthOf(len)
-    @rightPad(' ')
-    u stringy `say ""hi""`,// @lengthOf(
-    repeat char[7] pack `" ++ [28040; 24687; 31867; 22411]%N ++ runes_of_ascii "`,
-    @tag(42)
-    string u8x `// not a comment`,
-}
-
-root packet As {
-    int32 x @calculatedFrom(""\n""),
-}")).
-Eval vm_compute in ("<<<M1303>>>" ++ check (runes_of_ascii "  root packet // a // b
-f32a{ zchar[0123456789] Foo , zchar @lengthOf(
-a1 ),
-    @rightPad// packet A { u8 x, }
-( ) @tag( 3
-    //
-    ) match
-int as stringy {
-    [ 0]: chars,0  :
-i8i8 42:	i64_
-, [
-// c
-// packet A { u8 x, }
-255
-/// triple
-// `tick` ""quote"" 'q'
-,
-7 ,""1"", ""a\\""] :
-    leftPad,
-""" ++ [233]%N ++ runes_of_ascii "t" ++ [233]%N ++ runes_of_ascii """
-:
-Header ,
-    [ 7 ] : repeatCount ,
-} , i32 falsey @lengthOf(
-    u128 ) `two words` ,@tag( 0 )
-char[]
-// trailing space 
-// " ++ [27880; 37322]%N ++ runes_of_ascii "
-uint8x `{ , }`	, // " ++ [128512]%N ++ runes_of_ascii " emoji
-repeat MetaDataX { string /// triple
-len
-    ,// `tick` ""quote"" 'q'
-} ,
-@leftPad (// a // b
-'\x00'
-    //x
-    )
-    zchar[
-    0123456789	]o, f32 As
-@calculatedFrom(
-    ""a\\"" )
-    , @lengthOf(string_ )repeat u128
-    `` , pack/// triple
-{
-    crc stringy , repeat string asx , } , }
-")).
-Eval vm_compute in ("<<<M1223>>>" ++ check (runes_of_ascii "packet
-charz  { // @lengthOf(
-} options
-{
-} packet float	{ metadata Logon ,
-} packet
-    body {
-    @tag(
-    42 // packet A { u8 x, }
-) repeat tag i64_, /// triple
-@lengthOf( string_  )	match chars as
-    Z9_
-    { [65535
-// " ++ [27880; 37322]%N ++ runes_of_ascii "
-//x
-] :
-o // `tick` ""quote"" 'q'
-, [//	t
-""{,}"" ,0123456789
-    , ""packet""
-// packet A { u8 x, }
-//
-, ""abc"" ,255 , """ ++ [233]%N ++ runes_of_ascii "t" ++ [233]%N ++ runes_of_ascii """
-    ,
-// packet A { u8 x, }
-//x
-""x y"" , 3 ]: pack
-    , ""abc""
-:
-matchKey
-    , [ 0123456789 , 1 ] : chars
-    // c
-    1 :int ,  """ ++ [233]%N ++ runes_of_ascii "t" ++ [233]%N ++ runes_of_ascii """ : i64_ , }
-, match Pad as trueish { ""a	b"" : pack
-    , }
-,	@calculatedFrom( """ ++ [28040; 24687]%N ++ runes_of_ascii """
+, Header// packet A { u8 x, }
+@calculatedFrom( ""\n"" // " ++ [128512]%N ++ runes_of_ascii " emoji
 )
-repeat u128 x
-    ,
-    string A
+    `
+`
 ,
-lengthOf
-{
-BodyLength T  ,int16 A @lengthOf(
-i8i8
-)//x
-, // " ++ [27880; 37322]%N ++ runes_of_ascii "
-} ,options1 chars  `line1
-line2` ,
+    i8i8 a1
+`" ++ [28040; 24687; 31867; 22411]%N ++ runes_of_ascii "` , u32 x @calculatedFrom( ""abc"") , @lengthOf( crc )
+//x
+// " ++ [27880; 37322]%N ++ runes_of_ascii "
+repeat
+    char[ 3
+] charz`crlf
+line` , }MetaData MetaDataX{x As , } //	t
+root // " ++ [128512]%N ++ runes_of_ascii " emoji
+packet
+    chars{ }
+packet	o { @lengthOf(
+msg_type )
+    /// triple
+    repeat uint64 float , a1 , repeatCount { char[
+// `tick` ""quote"" 'q'
+//
+00 ] u8x @lengthOf(Header ) `" ++ [28040; 24687; 31867; 22411]%N ++ runes_of_ascii "` ,len
+    // trailing space 
+    @lengthOf( //
+options1 )
+,x @lengthOf( //	t
+pack
+) `two words`
+    , char[] leftPad  `" ++ [233]%N ++ runes_of_ascii "` ,}// " ++ [27880; 37322]%N ++ runes_of_ascii "
+,
+char[] stringy//	t
+@lengthOf(	msg_type ) `u8 x,`// packet A { u8 x, }
+, @calculatedFrom(""it's"" ) Header A
+,char[
+1// `tick` ""quote"" 'q'
+] f32a  ,
+}root
+    packet packetx {// a // b
+repeat
+    zchar[
+007 ] u8x ,	@leftPad// @lengthOf(
+('0'
+    )
+f64 stringy @lengthOf(
+lengthOf )
+,	match T as o {
+65535
+    // @lengthOf(
+    : tag ,
+255: o
+    """" : stringy ,
+} ,@lengthOf( calculatedFrom ) @leftPad	(
+'0' ) @lengthOf( u ) f64 Logon @lengthOf(
+    _x) , } //	t")).
+Eval vm_compute in ("<<<M50>>>" ++ check (runes_of_ascii "//x
+packet Header
+    {
+    body
+// " ++ [27880; 37322]%N ++ runes_of_ascii "
+// " ++ [27880; 37322]%N ++ runes_of_ascii "
+@calculatedFrom(
+    ""CRC32"" )
+`it's` ,repeat
+int64//x
+msg_type // " ++ [128512]%N ++ runes_of_ascii " emoji
+,
+//	t
+//
+@tag( 0 ) zchar[ 0 //
+]
+    int
+//	t
+// @lengthOf(
+, }
+    // " ++ [128512]%N ++ runes_of_ascii " emoji
+    options { Packet=
+true
+    MetaDataX =
+""" ++ [28040; 24687]%N ++ runes_of_ascii """ A
+    = string} root packet	Logon {
+    @leftPad // " ++ [27880; 37322]%N ++ runes_of_ascii "
+('0' //x
+)Header//
+leftPad `doc` ,
+    f32a
+    {	rootA @lengthOf( calculatedFrom )	, int8
+Packet `line1
+line2` , } , repeat calculatedFrom
+    { // `tick` ""quote"" 'q'
+match
+packetx as len { 1:matchKey ,
+0123456789 :repeatCount ,
+""\" ++ [233]%N ++ runes_of_ascii """ :
+float , 255:
+    MetaDataX
+, },} ,
+//x
+// " ++ [27880; 37322]%N ++ runes_of_ascii "
+leftPad {  repeat roots{ //	t
+roots
+@calculatedFrom(/// triple
+""abc"" ),int32
+BodyLength @calculatedFrom( ""packet"" )
+,
+}	, match repeatCount as
+matchKey { ""abc"" : u128 , """ ++ [128512]%N ++ runes_of_ascii """ : a1
+, ""a\\""
+:rootA ,	[  3,3 ]// c
+:
+x_y_z	007 :Foo
+    } ,
 }
-")).
-Eval vm_compute in ("<<<M3654>>>" ++ check (runes_of_ascii "// top
-options // c0a
-  // c0b
-{
-    // c1
-LittleEndian = // c3
+, // c
+repeat rootA	matchKey	`it's` //	t
+,	a1
+    @calculatedFrom(""x y"" )  `line1
+line2` ,int	,
+    @tag(
+// trailing space 
+//x
+65535) match metadata as	As
+{ ""x y"": Foo	,//x
+[ // `tick` ""quote"" 'q'
+""x y"" ]:
+    tag
+//
+// a // b
+, 3
+    : pack } ,repeat int8 charz ,char[] body , }
+options {
+    MetaDataX = char[ 0 ] ; } // a // b")).
+Eval vm_compute in ("<<<M4084>>>" ++ check (runes_of_ascii "packet As {
+    options1 {
+        i16 o,
+    },
+    i64 roots,
+    repeat char[] o `a\`,
+    @calculatedFrom(""1"")
+    repeatCount @lengthOf(falsey) `a\`,
+    @lengthOf(stringy)
+    char[] As `" ++ [233]%N ++ runes_of_ascii "`,
+    asx {
+        match msg_type as chars {
+            //	t
+            00 : metadata,
+        },
+        i8 pack @calculatedFrom(""x y""),//	t
+        match u8x as rootA {
+            ""1"" : a1,
+            [4294967296] : msg_type,
+        },
+    },
+    @calculatedFrom(""" ++ [233]%N ++ runes_of_ascii "t" ++ [233]%N ++ runes_of_ascii """)
+    int16 roots,
+    @tag(1)
+    @leftPad('0')
+    @rightPad('\x00')
+    i32 asx `tab	here`,
+    char Logon `u8 x,`,
+}
+
+root packet string_ {
+    // @lengthOf(
+}
+
+packet Z9_ {
+    int8 _x,
+    repeat u8 uint8x `" ++ [233]%N ++ runes_of_ascii "`,
+    float64 x_y_z @calculatedFrom(""x y""),
+    @calculatedFrom(""a\""b"")
+    @calculatedFrom(""a\""b"")
+    int {
+        zchar[255] msg_type,
+        i64_ {
+            stringy @lengthOf(x_y_z),
+            u options1 `tab	here`,
+            char[0123456789] msg_type,
+            float32 Foo `{ , }`,
+        },
+    },
+    @tag(0)
+    @calculatedFrom(""CRC32"")
+    charz,
+    @tag(4294967296)
+    i64 packetx,
+}//	t")).
+Eval vm_compute in ("<<<M4313>>>" ++ check (runes_of_ascii "MetaData Packet {
+    stringy body,
+    //	t
+    x_y_z matchKey,
+    zchar[007] MetaDataX,// " ++ [128512]%N ++ runes_of_ascii " emoji
+    u16 u128 `u8 x,`,
+    stringy i64_,
+    char[] Z9_ `two words`,
+}
+
+MetaData body {
+    float32 Header,
+}
+
+options {
+    trueish = false;
+    x_y_z = 7
+    Packet = false
+    i8i8 = zchar[255]
+    tag = char[];
+}
+
+packet crc {
+    repeat char[0] x,
+    repeat float64 packetx,
+    match As as len {
+        [255] : Z9_,
+        // " ++ [27880; 37322]%N ++ runes_of_ascii "
+        ""{,}"" : MetaDataX,
+        [00, ""a	b"", 255] : Pad,
+        3 : body,
+    },
+    u128 @calculatedFrom(""CRC32""),// `tick` ""quote"" 'q'
+    @tag(10)
+    metadata {
+        repeat trueish x `line1
+        line2`,
+        u @calculatedFrom(""it's""),
+        match trueish as _x {
+            42 : o,
+            [""CRC32""] : rootA,
+        },
+    },
+    tag {
+        Z9_ {
+            zchar[3] stringy `tab	here`,
+        },
+    },
+    matchKey u8x,
+    repeat int64 metadata `{ , }`,
+    @leftPad('\x00')
+    T int,
+    @calculatedFrom(""abc"")
+    zchar[4294967296] charz,// " ++ [128512]%N ++ runes_of_ascii " emoji
+}")).
+Eval vm_compute in ("<<<M3654>>>" ++ check (runes_of_ascii "options { // c1
+FixedStringPadFromLeft = // c3a
+  // c3b
 true // c4
-;
-    // c5
-} packet // c7
-Logon
-    // c8
-{
-    // c9
-u8 // c10
-x // c11a
+; // c5a
+  // c5b
+FixedStringPadChar = // c7a
+  // c7b
+' ' // c8
+; // c9a
+  // c9b
+} // c10a
+  // c10b
+packet // c11a
   // c11b
-, // c12a
-  // c12b
-string // c13a
-  // c13b
-user , } packet Logout
-    // c18
-{ u16 reason
-    // c21
-, // c22a
-  // c22b
+Reject {
+    // c13
 }
+    // c14
+packet Fill // c16a
+  // c16b
+{ // c17a
+  // c17b
+repeat i16 // c19
+Tail // c20a
+  // c20b
+, } // c22
+root
     // c23
 packet // c24a
   // c24b
-Empty // c25a
+Trade // c25a
   // c25b
-{ }
-    // c27
-root packet // c29a
+{
+    // c26
+float64 // c27a
+  // c27b
+Ref
+    // c28
+, // c29a
   // c29b
-Frame {
-    // c31
-u16 MsgType // c33
+Fill
+    // c30
+, u8
+    // c32
+Note // c33
 , // c34a
   // c34b
 u16
     // c35
-BodyLen // c36
-@lengthOf(
-    // c37
-Body ) // c39a
-  // c39b
-, u8 // c41a
-  // c41b
-flags // c42
-, // c43a
+count // c36a
+  // c36b
+@lengthOf( // c37
+Body )
+    // c39
+, match // c41
+Note // c42a
+  // c42b
+as // c43a
   // c43b
-Logon Body // c45a
-  // c45b
-,
-    // c46
-u32 // c47
-trailer // c48
-, // c49
-} // c50a
-  // c50b
-")).
-Eval vm_compute in ("<<<M740>>>" ++ check (runes_of_ascii "
-packet msg_type{ repeat
-i64 MetaDataX
-`line1
-line2` // trailing space 
-,  repeat char[] //
-u128 ,
-@tag(
-42
-    ) // @lengthOf(
-@lengthOf( u )
-@lengthOf( body )repeat
-zchar[ 255
-    //
-    ]
-// `tick` ""quote"" 'q'
-// trailing space 
-As	,calculatedFrom
-    //x
-    f32a
-    // trailing space 
-    ,}
-options
-{// @lengthOf(
-x
-    =  3 msg_type = ""`tick`"" falsey= ""CRC32""
-    ;
-    // trailing space 
-    body=
-    char[ 00] ; uint8x  = ""x y"" } options// @lengthOf(
-{//
-A
-    =
-    uint16
-}root packet BodyLength { @lengthOf( pack )
-    repeat
-    metadata T
-`{ , }`
-// packet A { u8 x, }
-//	t
-,}packet chars{ }
-// packet A { u8 x, }
-")).
-Eval vm_compute in ("<<<M1255>>>" ++ check (runes_of_ascii "MetaData MetaDataX { string pack ``  , u32
-    falsey	,
-char[//	t
-65535 ] chars, u64	int ,// c
-}
-options
-{ i8i8= true	;
-float =
-' '
-    ;
-}	packet Foo {// a // b
-@lengthOf( i64_ )
-repeat
-    calculatedFrom{
-    match // a // b
-repeatCount as stringy {
-255 :
-    msg_type  ,65535	: // a // b
-roots ""a\""b""  : repeatCount ,[
-    ""packet"" ,
-""1""]
-:
-    o
-    """ ++ [28040; 24687]%N ++ runes_of_ascii """:zchar ""CRC32"" :A ,}, int64 chars @calculatedFrom( ""a\""b"" )// packet A { u8 x, }
-`say ""hi""`
-, packetx @lengthOf(
-x_y_z ) ,
-    // `tick` ""quote"" 'q'
-    }, stringy @calculatedFrom( """ ++ [28040; 24687]%N ++ runes_of_ascii """) `u8 x,`
-, zchar[	007 ] chars,zchar[ 1
-]f32a `" ++ [28040; 24687; 31867; 22411]%N ++ runes_of_ascii "`
-    , }")).
-Eval vm_compute in ("<<<M744>>>" ++ check (runes_of_ascii "// " ++ [128512]%N ++ runes_of_ascii " emoji
-options // c
-{
-Packet	= char[]a1	=
-    0 ;
-    BodyLength = char[]; } MetaData
-    BodyLength	{
-    T string_ `" ++ [28040; 24687; 31867; 22411]%N ++ runes_of_ascii "` , x_y_z
-    // trailing space 
-    stringy `say ""hi""`	,
-    char Packet`" ++ [28040; 24687; 31867; 22411]%N ++ runes_of_ascii "` , leftPad Packet
-    ,
-} packet packetx
-{
-    //x
-    match uint8x as T	{ [ /// triple
-""`tick`"" ,
-    0123456789 ,
-""// no comment"" ,
-    255 , ""abc"", 10 // c
+Body // c44a
+  // c44b
+{ [ // c46
+98 // c47a
+  // c47b
+, 101 // c49
 ]
-: i64_ , [ ""{,}"" , ""a\""b"" ] : int
-, [0123456789 ,
-    //x
-    65535
-    , 255 // `tick` ""quote"" 'q'
-,255
-    ] // @lengthOf(
-: repeatCount , //x
-} // " ++ [128512]%N ++ runes_of_ascii " emoji
-, repeat char[ 255 ]  A ,	repeat Foo`tab	here`  ,}
-
+    // c50
+: Fill // c52a
+  // c52b
+, 34 : // c55
+Reject // c56
+, } // c58
+,
+    // c59
+u32 // c60a
+  // c60b
+x // c61a
+  // c61b
+@calculatedFrom( // c62
+""CRC32"" // c63a
+  // c63b
+) // c64a
+  // c64b
+, } // c66a
+  // c66b
 ")).
-Eval vm_compute in ("<<<M3943>>>" ++ check (runes_of_ascii "
-
-  root	packet  crc
-
-    {
-    @calculatedFrom(
-""" ++ [128512]%N ++ runes_of_ascii """  )
+Eval vm_compute in ("<<<M1076>>>" ++ check (runes_of_ascii "
+packet// `tick` ""quote"" 'q'
 BodyLength
-	{  x_y_z i8i8 
-	//
-    //
-  ,int32 
-uint8x 
-`two words` 
-, rootA  tag
-,
-	zchar[7 ] matchKey
-
-`" ++ [233]%N ++ runes_of_ascii "`	,
-
-}
-,
-
-T 
-{
-	x
-@calculatedFrom(
-    ""a	b"" )
-	`// not a comment`,
-zchar[ 	 // " ++ [128512]%N ++ runes_of_ascii " emoji
-    	42
-
-    ]  /// triple
-  A 
-,	match
-	chars 
-as 
-      //x
-  len
-    {
-    ""packet"": crc
-
-3 	 //x
-:
-
-chars  [
-
-0123456789 ,
-""packet"" ] : 
-pack	[ 
-""packet""
-
-    , 
-00 	 // " ++ [27880; 37322]%N ++ runes_of_ascii "
-  ,
-7	,
-	""" ++ [28040; 24687]%N ++ runes_of_ascii """, 
-3
-, 
-""packet"",
-42 ,0123456789
-]
-
-    :repeatCount""{,}"" :chars
-    ,	/// triple
-
-},
-	},	}")).
-Eval vm_compute in ("<<<M157>>>" ++ check (runes_of_ascii "root
-packet o { @leftPad (
-    '0'  )repeat uint16 o // `tick` ""quote"" 'q'
-,// `tick` ""quote"" 'q'
-@tag( 1
-    // `tick` ""quote"" 'q'
-    )
-//x
-// " ++ [128512]%N ++ runes_of_ascii " emoji
-@tag( 65535 ) u32 options1 ,@lengthOf( i8i8) @lengthOf(int ) @leftPad// " ++ [27880; 37322]%N ++ runes_of_ascii "
-() char[  42 ] len @calculatedFrom( ""packet"" ) ,
-    u32 Foo @calculatedFrom( ""a\\"") ,
-    } packet a1 {@lengthOf(
-    A /// triple
-)	Foo MetaDataX `it's`, Z9_ metadata
-    //
-    `" ++ [28040; 24687; 31867; 22411]%N ++ runes_of_ascii "` ,
-match MetaDataX
-    as falsey { [ 42
-    ]
-    :body // " ++ [128512]%N ++ runes_of_ascii " emoji
-[""packet""	, 4294967296]
-    :  A} , Z9_ ,}")).
-Eval vm_compute in ("<<<M4345>>>" ++ check (runes_of_ascii "// " ++ [128512]%N ++ runes_of_ascii " emoji
-options {
-    Packet = char[]
-    a1 = 0;
-    BodyLength = char[];
-}
-
-MetaData BodyLength {
-    T string_ `" ++ [28040; 24687; 31867; 22411]%N ++ runes_of_ascii "`,
-    x_y_z stringy `say ""hi""`,
-    char Packet `" ++ [28040; 24687; 31867; 22411]%N ++ runes_of_ascii "`,
-    leftPad Packet,
-}
-
-packet packetx {
-    //x
-    match uint8x as T {
-        [
-            0123456789, 255, 10, ""`tick`"", ""// no comment"",
-            ""abc""
-        ] : i64_,
-        [""{,}"", ""a\""b""] : int,
-        [0123456789, 65535, 255, 255] : repeatCount,
-    },
-    repeat char[255] A,
-    repeat Foo `tab	here`,
-}")).
-Eval vm_compute in ("<<<M1121>>>" ++ check (runes_of_ascii "options{ Logon =
-int32
-; x_y_z // trailing space 
-= ""1"" f32a = 007 BodyLength =
-    zchar[
-    // " ++ [27880; 37322]%N ++ runes_of_ascii "
-    3
-]
-    ; MetaDataX = false //x
-;
-} packet // c
-A { match A
-    as A {
-    42 : _x ,
-} , }
-packet int
-{ //
-_x
-    asx
-,	} packet	trueish {
-float	@calculatedFrom(
-// " ++ [128512]%N ++ runes_of_ascii " emoji
+{ @rightPad (	)int8
 // @lengthOf(
-"""" ) ,
-zchar[
-65535 ] Pad@calculatedFrom(""a	b"" ) `
-` //	t
-,
-}options
-    {
-    // " ++ [128512]%N ++ runes_of_ascii " emoji
-    f32a =	zchar[ 42 ] ; body = ""`tick`"" ; //
-As =
-    true
-    tag=3 ;
-packetx = true
-}
-")).
-Eval vm_compute in ("<<<M246>>>" ++ check (runes_of_ascii "packet // c
-Z9_ {
-As
-    x
-, @rightPad ( ' ') @lengthOf( Header) @rightPad(  ' '
-)match u as  string_{ ""a	b""
-    : Pad
-    // trailing space 
-    ,1: T , [ """" , 255, ""abc""
-, 7
-    //	t
-    ] :
-BodyLength ,  },match falsey
-as  metadata{ 42: float ,
-    // `tick` ""quote"" 'q'
-    } , match lengthOf
-as As {1
-:
-As, [	"""" ,	""a\\"" ,
-""{,}"" , ""it's"" ,
-    //
-    42,""a\\"" , 0 // trailing space 
-, 3  ]  : f32a, } , // packet A { u8 x, }
-repeat float64 roots ,	}
-")).
-Eval vm_compute in ("<<<M869>>>" ++ check (runes_of_ascii "packet roots {
-    repeat u8x `two words` ,
-repeat roots // " ++ [128512]%N ++ runes_of_ascii " emoji
-{ // " ++ [27880; 37322]%N ++ runes_of_ascii "
-char[ 1 ] Z9_`it's`, // " ++ [128512]%N ++ runes_of_ascii " emoji
-char[ // trailing space 
-42
-] float`" ++ [28040; 24687; 31867; 22411]%N ++ runes_of_ascii "` ,
-    } , char[]	As  `a\` ,calculatedFrom {repeat uint64
-trueish , } , repeat i64
-MetaDataX ,
-repeat string uint8x `say ""hi""` , _x A
+// c
+BodyLength  @calculatedFrom(	""packet"" )
+// c
+/// triple
 `
-` , @lengthOf( // `tick` ""quote"" 'q'
-Packet )	@tag(7 )
-@leftPad ( // packet A { u8 x, }
-) Header { u128 , repeat
-    char[] trueish  `a\`, },
-    }
-")).
-Eval vm_compute in ("<<<M462>>>" ++ check (runes_of_ascii "
-root
-packet string_ {	@tag(	65535)  u8  u8x@calculatedFrom( ""it's"" // packet A { u8 x, }
-) , zchar[	10
-// " ++ [27880; 37322]%N ++ runes_of_ascii "
-//
-] pack,  string
-f32a  ,
-Pad x`say ""hi""`
-,@calculatedFrom(
-""`tick`""	) // c
-@rightPad ( ' ') @calculatedFrom(
-""" ++ [128512]%N ++ runes_of_ascii """ )
-    match tag as  u128 {
-    [
-255 ,	""packet""
-,	4294967296 , ""// no comment"" , ""\n"" , // a // b
-65535 ,""""
-    // c
-    , """ ++ [28040; 24687]%N ++ runes_of_ascii """] : falsey ""CRC32"" : uint8x , [ 007 , 3 , """ ++ [28040; 24687]%N ++ runes_of_ascii """
-] : As , }	,
-} 	 ")).
-Eval vm_compute in ("<<<M635>>>" ++ check (runes_of_ascii "  MetaData
+`, u8x
+calculatedFrom
+    ,//x
+repeat
     f32a {
-char[]
-trueish ,  float64 u128
-`" ++ [28040; 24687; 31867; 22411]%N ++ runes_of_ascii "` ,
-    //	t
-    tag // a // b
-f32a ,matchKey // " ++ [128512]%N ++ runes_of_ascii " emoji
-int `two words` , i8	pack `a\` , } packet asx	{ int8	Header`say ""hi""`,} MetaData roots {i32 tag `" ++ [233]%N ++ runes_of_ascii "` ,
-    crc  Z9_ ,
-T T
-    `
-` , //
-int32  matchKey,
-matchKey Header`line1
-line2`
-// " ++ [27880; 37322]%N ++ runes_of_ascii "
-// trailing space 
-,
-// `tick` ""quote"" 'q'
-//x
-char[
-0 ] MetaDataX
-    ,
-// c
-// @lengthOf(
-} // " ++ [27880; 37322]%N)).
-Eval vm_compute in ("<<<M365>>>" ++ check (runes_of_ascii "root
-packet //x
-pack
-{ match matchKey //	t
-as
-int // @lengthOf(
-{ 00 : metadata
-    ,
-    ""a\\""
-    : o ,
-""// no comment"" :// `tick` ""quote"" 'q'
-x ,
-[
-""packet""] : A
-, [ ""\n"",0123456789 , 00 , ""// no comment"" ,007 ,
-255,
-1 ,// c
-0 ]
-    // a // b
-    : metadata ,[ 00] : Pad ,} , } // @lengthOf(
-MetaData tag
-{uint64 i64_`doc` ,
-    } packet BodyLength { repeat
-u32
-u128 , }
-")).
-Eval vm_compute in ("<<<M309>>>" ++ check (runes_of_ascii "options // " ++ [27880; 37322]%N ++ runes_of_ascii "
-{charz
-    =
-/// triple
-/// triple
-int64 chars // trailing space 
-=
-65535
-// " ++ [27880; 37322]%N ++ runes_of_ascii "
-// a // b
-zchar =
-'\x00'MetaDataX// a // b
-=	0123456789
-roots
-// trailing space 
-// " ++ [27880; 37322]%N ++ runes_of_ascii "
-= """" } options {crc // c
-=""" ++ [28040; 24687]%N ++ runes_of_ascii """
-    ;
-    } MetaData	float {
-    zchar[ 42
-// `tick` ""quote"" 'q'
-//
-]
-leftPad
-    `line1
-line2` ,
-i64_ u,float32 // packet A { u8 x, }
-A`" ++ [28040; 24687; 31867; 22411]%N ++ runes_of_ascii "` , }")).
-Eval vm_compute in ("<<<M4105>>>" ++ check (runes_of_ascii "packet i8i8 {
-    match tag as i8i8 {
-        """ ++ [28040; 24687]%N ++ runes_of_ascii """ : pack,
-        3 : rootA,
-        [1, 3] : falsey,
-    },
-    // " ++ [128512]%N ++ runes_of_ascii " emoji
-    // trailing space 
-    zchar[10] string_,// @lengthOf(
-}
-
-packet falsey {
-    string chars,
-    uint8x,
-    @lengthOf(packetx)
-    char[] Packet,
-}
-
-MetaData a1 {
-    chars roots `crlf
-        line`,
-    asx zchar,
-}")).
-Eval vm_compute in ("<<<M666>>>" ++ check (runes_of_ascii "
-packet u8x { //
-asx
-// a // b
-// @lengthOf(
-`say ""hi""`
+zchar[ 3 ] BodyLength , match i8i8 // " ++ [128512]%N ++ runes_of_ascii " emoji
+as A{
+    3  : packetx , ""CRC32"" //x
+:
+options1
+}  , } , @leftPad
+( ' ' )@lengthOf( Header ) repeat
+len string_ ,
+@tag( 4294967296 // @lengthOf(
+)@calculatedFrom(""" ++ [233]%N ++ runes_of_ascii "t" ++ [233]%N ++ runes_of_ascii """ )len
+repeatCount
+,  u64 i64_
+`{ , }`	, i16 o , @lengthOf( repeatCount	) @lengthOf(
+Header ) @rightPad(  '\x00'
     //x
-    ,}  MetaData Foo{ packetx
-MetaDataX `" ++ [28040; 24687; 31867; 22411]%N ++ runes_of_ascii "` ,}
-packet  a1 {@calculatedFrom(""\" ++ [233]%N ++ runes_of_ascii """// trailing space 
-) len
-// " ++ [27880; 37322]%N ++ runes_of_ascii "
-// c
-`` ,@calculatedFrom(
-""a\\""// trailing space 
-) @lengthOf(
-calculatedFrom )//	t
-string
-    msg_type
-// trailing space 
-// c
+    ) repeat options1{ // c
+roots @calculatedFrom(
+    ""1""// c
+)
+    `tab	here` ,repeat // @lengthOf(
+options1 zchar , repeat a1{
+    u128 {match Z9_ as x {
+    ""`tick`"" :o, ""`tick`""// packet A { u8 x, }
+:  pack , [ 255 ]
+    : Header ,3 : asx ,
+[ 255 , //	t
+""CRC32""
+]  : charz }, } ,}, char[10 ] stringy ,
+    } ,// " ++ [27880; 37322]%N ++ runes_of_ascii "
+@leftPad( )
+// packet A { u8 x, }
+// a // b
+char[
+007] len`doc` , }")).
+Eval vm_compute in ("<<<M4526>>>" ++ check (runes_of_ascii "root packet
+	falsey 
+{
+
+}root 
+packet
+
+    x 
+{ asx ,
+	stringy  { 	 //x
+
+  f64  roots , char[]  // packet A { u8 x, }
+    chars
+@lengthOf(uint8x
+
+    )  
+      // `tick` ""quote"" 'q'
+
+	`
+`
+,},
+@lengthOf(len )
+
+    i8 MetaDataX	@calculatedFrom(
+""packet""
+)
+    ,  match MetaDataX
+
+as _x
+{
+	0
+    : 
+uint8x	, }
+    ,
+    // c
+	//x
+@leftPad ( 
+'\x00'
+    ) uint16// c
+
+roots
+    @calculatedFrom(
+""abc""
+// `tick` ""quote"" 'q'
+  )
+    , @rightPad	(
+	' '
+
+)
+int32 leftPad@calculatedFrom(""packet""	/// triple
+) `" ++ [233]%N ++ runes_of_ascii "` ,
+
+    }
+options
+{ falsey 
+=7
+i64_
+
+= 
+int16 	 // packet A { u8 x, }
+  len
+=	false 
+
+//x
+    // @lengthOf(
+  ; 
+_x
+=
+'0'
+	;
+    asx =
+""" ++ [28040; 24687]%N ++ runes_of_ascii """ ;
+}
+
+    options{
+
+packetx
+=
+
+    uint64
+    ;len =true
+;
+}
+packet
+tag 	 // `tick` ""quote"" 'q'
+		{ 
+@leftPad
+
+    ()@calculatedFrom( 
+""abc""
+) int16
+	Pad
+@lengthOf(BodyLength 
+) ,//x
+	}
+")).
+Eval vm_compute in ("<<<M4235>>>" ++ check (runes_of_ascii "
+
+  root
+packet
+    pack  { } MetaData
+    falsey {
+
+char[]
+	A
+
+    `// not a comment`
+	, 
+}
+packet uint8x {
+repeat  o
+    {
+	u64
+    string_
+    @calculatedFrom(	// " ++ [128512]%N ++ runes_of_ascii " emoji
+""" ++ [233]%N ++ runes_of_ascii "t" ++ [233]%N ++ runes_of_ascii """
+
+),	} ,  repeat
+	string_`" ++ [28040; 24687; 31867; 22411]%N ++ runes_of_ascii "` 
+    //	t
+	  // @lengthOf(
+	,repeat 
+u 
+{ 
+packetx
+@lengthOf(
+
+    len ) 
+`doc`, 
+}
+
+    ,	@lengthOf(
+
+u8x
+
+)
+
+float32 MetaDataX @calculatedFrom(
+	""" ++ [233]%N ++ runes_of_ascii "t" ++ [233]%N ++ runes_of_ascii """ 
+)
+	,  uint8 MetaDataX`it's` ,@rightPad
+    ('\x00'
+    )
+
+repeat 
+        // a // b
+      crc  { x_y_z
+
+    @lengthOf(As  )
+
+`line1
+line2`
+    ,
+i32
+
+//	t
+  	repeatCount
+
+,
+	// a // b
+		// @lengthOf(
+  repeat	Pad
+    {
+	repeat  string_
+`" ++ [233]%N ++ runes_of_ascii "`
+,
+leftPad 
+{char[]	float
+	,}
+,	}
+
+,}
+
+, @calculatedFrom(
+""it's""
+)zchar[
+    42 
+]  A
+    @lengthOf(  matchKey
+
+    )
+    ,roots
+@calculatedFrom(""CRC32""	) 	 // @lengthOf(
+  `a\`
+
 ,
 }
-// packet A { u8 x, }
+
 ")).
-Eval vm_compute in ("<<<M1102>>>" ++ check (runes_of_ascii "packet int{ @tag(7 )
-@tag(007 )zchar[ 4294967296	]	Logon @calculatedFrom(""it's"" )	`" ++ [233]%N ++ runes_of_ascii "`
+Eval vm_compute in ("<<<M1134>>>" ++ check (runes_of_ascii "MetaData
+int
+    { u32 pack
+    , char f32a , trueish MetaDataX  `tab	here` /// triple
+, }options {  T=3 }
+    packet // trailing space 
+a1
+    { @calculatedFrom( ""1"" )
+uint8x
+Logon
     ,
-    @leftPad (
-)@lengthOf( falsey ) char
-    x @lengthOf(
-// `tick` ""quote"" 'q'
+    /// triple
+    @leftPad ( '0' ) char Header ,@lengthOf( packetx ) u64 zchar @calculatedFrom(""" ++ [128512]%N ++ runes_of_ascii """) `line1
+line2` , @tag( 007
+    ) @lengthOf( float )
+@tag(
+    0 ) repeat
+    uint8x { int16 // " ++ [27880; 37322]%N ++ runes_of_ascii "
+metadata
+@lengthOf( zchar
+)
+    , charz @calculatedFrom( //x
+""// no comment""  ), u8  int @lengthOf( crc
+) `
+` ,
+    }, @lengthOf(	zchar
+    )repeat leftPad falsey , i8i8 { string
+    T ``, } ,
+@rightPad ()// `tick` ""quote"" 'q'
+repeat
+o { uint64  metadata @lengthOf( pack
+    // " ++ [27880; 37322]%N ++ runes_of_ascii "
+    ) ,  },
+@leftPad
+(
+'\x00'
+    ) //
+repeat u128 leftPad // trailing space 
+,} options {  }
+")).
+Eval vm_compute in ("<<<M775>>>" ++ check (runes_of_ascii "
+MetaData tag { zchar[
+1] repeatCount
+    , Header
+rootA ,zchar[ // " ++ [128512]%N ++ runes_of_ascii " emoji
+3] string_ `two words`
+, int8 _x
+    ,
+    char[
 // " ++ [27880; 37322]%N ++ runes_of_ascii "
-msg_type )  `it's` ,
-    match
-a1 as BodyLength
-{ 42 : u
+/// triple
+0123456789 ] zchar`
+` ,zchar[  4294967296 ]
+    // " ++ [27880; 37322]%N ++ runes_of_ascii "
+    a1 `` , } root
+packet // " ++ [27880; 37322]%N ++ runes_of_ascii "
+Pad {@lengthOf( As)
+BodyLength { char[] a1 @lengthOf(	Pad ) ,char[]	BodyLength `doc`// @lengthOf(
+, }
+,  match options1
+as	packetx { ""\n"" : i8i8 ,[
+""CRC32"",
+    //	t
+    10 ,//	t
+""1"",
+65535 ]
+// @lengthOf(
+// " ++ [27880; 37322]%N ++ runes_of_ascii "
+: matchKey 00 :  uint8x,
+    3 :repeatCount,  ""\n"" :
+tag
+    // packet A { u8 x, }
+    , // a // b
+""x y"" : //
+u8x } , @lengthOf( calculatedFrom
+    )	msg_type body // " ++ [128512]%N ++ runes_of_ascii " emoji
+, }
+    options {
+// " ++ [27880; 37322]%N ++ runes_of_ascii "
+// a // b
+T
+//x
+// @lengthOf(
+=
+10 ;T = u16	;}packet stringy // trailing space 
+{	}
+")).
+Eval vm_compute in ("<<<M27>>>" ++ check (runes_of_ascii "root packet Packet{ char[]
+    msg_type @calculatedFrom(""a\\"" ) , repeat
+    u16 a1
+`say ""hi""`
+,f32a
+stringy
+`u8 x,` ,
+    uint16 int	, @calculatedFrom( ""// no comment""
+) repeat
+// a // b
+// c
+u8 T, zchar[
+// packet A { u8 x, }
+// " ++ [27880; 37322]%N ++ runes_of_ascii "
+65535
+//x
+//
+]  T , // `tick` ""quote"" 'q'
+repeat chars	{ char[] tag //x
+`" ++ [233]%N ++ runes_of_ascii "`,int64 A	@calculatedFrom(	""\n"" )`// not a comment`
+, match trueish as i8i8 {[ ""a\""b""]	: MetaDataX, } , len {zchar[ 65535 ]o
+    @lengthOf( body  ) `a\`//
+, string options1`two words`
+    , tag
+    // `tick` ""quote"" 'q'
+    { T `{ , }`
+    , charz
+    ,i8 // trailing space 
+uint8x ,} ,char[]packetx// @lengthOf(
+@lengthOf(// c
+roots ) ,} ,
+    }
+,//
+string  x, } // trailing space ")).
+Eval vm_compute in ("<<<M3599>>>" ++ check (runes_of_ascii "// top
+packet
+    // c0
+MDSnapshotZZ // c1a
+  // c1b
+{ // c2
+u8 // c3a
+  // c3b
+a
+    // c4
+, // c5
+} packet // c7
+OrderACK
+    // c8
+{
+    // c9
+u16 // c10
+b // c11
+, }
+    // c13
+packet // c14
+HTTPServerInfo // c15a
+  // c15b
+{ // c16a
+  // c16b
+string // c17a
+  // c17b
+s // c18
+, } // c20
+root packet
+    // c22
+FIXMsg
+    // c23
+{ // c24a
+  // c24b
+u8 // c25a
+  // c25b
+KType
+    // c26
+, // c27
+MDSnapshotZZ // c28
+, repeat
+    // c30
+OrderACK // c31a
+  // c31b
+, // c32a
+  // c32b
+match KType as Body
+    // c36
+{ // c37a
+  // c37b
+1 // c38
+: // c39
+HTTPServerInfo , 2 : // c43a
+  // c43b
+OrderACK
+    // c44
+, // c45
+} // c46
+,
+    // c47
+} // c48
+")).
+Eval vm_compute in ("<<<M276>>>" ++ check (runes_of_ascii "packet zchar { msg_type ,
+//
+// `tick` ""quote"" 'q'
+@tag( 65535 ) repeat float32 len,
+    @lengthOf(
+// " ++ [27880; 37322]%N ++ runes_of_ascii "
+// `tick` ""quote"" 'q'
+crc )	lengthOf
+    //
+    {
+repeat float `say ""hi""` ,}	, u32 // a // b
+Packet
+@lengthOf( i8i8// a // b
+)  `
+`
+// packet A { u8 x, }
+// packet A { u8 x, }
+,
+i8i8 // a // b
+, u32 calculatedFrom  @lengthOf( BodyLength //x
+)`a\` , @lengthOf( Logon// " ++ [128512]%N ++ runes_of_ascii " emoji
+) match MetaDataX
+as	Foo  { [
+""\n"" ,
+255 ] :Packet , 3: o
+    ,
+[007] : T, }
+, match pack as A { """ ++ [28040; 24687]%N ++ runes_of_ascii """
+: _x 007	:
+//x
+// " ++ [128512]%N ++ runes_of_ascii " emoji
+metadata,
+255 :
+As
+    ,
+    7 :charz, 10 : len, } , f32 len
+, @leftPad ('\x00'  )float32 trueish , }
+")).
+Eval vm_compute in ("<<<M402>>>" ++ check (runes_of_ascii "options { // @lengthOf(
+} options{metadata = ' ' }packet
+    Packet
+{ @leftPad (
+    ' ' ) pack @calculatedFrom( ""`tick`"" ),}
+packet// " ++ [27880; 37322]%N ++ runes_of_ascii "
+T
+{@tag( 255
+)@tag(// `tick` ""quote"" 'q'
+7 )
+@calculatedFrom( ""CRC32"" ) metadata	@calculatedFrom( """" )// trailing space 
+, repeat string falsey `` , match crc as roots { 255
+    : As ,
+    42 : MetaDataX }, // @lengthOf(
+@tag( 0 )@calculatedFrom(
+    //	t
+    ""it's"")@calculatedFrom(""" ++ [233]%N ++ runes_of_ascii "t" ++ [233]%N ++ runes_of_ascii """) match string_ as a1
+{ """ ++ [233]%N ++ runes_of_ascii "t" ++ [233]%N ++ runes_of_ascii """ : body//	t
+, 7
+    : Packet,
+    // `tick` ""quote"" 'q'
+    } //
+, string options1,
+calculatedFrom MetaDataX
+,zchar[42]	i8i8
+    `` , }")).
+Eval vm_compute in ("<<<M3877>>>" ++ check (runes_of_ascii "
+
+  options
+    {  packetx  =
+'\x00' o 
+=  
+      // `tick` ""quote"" 'q'
+  ""abc""
+lengthOf 	 // @lengthOf(
+  	= 
+255
+zchar
+
+=""" ++ [128512]%N ++ runes_of_ascii """Pad // packet A { u8 x, }
+
+	=
+
+string;
+} root
+
+packet
+    options1 //x
+	{ calculatedFrom o ,
+    x	@lengthOf( leftPad// " ++ [128512]%N ++ runes_of_ascii " emoji
+),
+    match	_x as
+
+    stringy 
+{
+3	:
+i8i8
+	,}	,	string T
+	,} root 
+packet uint8x
+{ 
+len
+    /// triple
+// a // b
+	``	, } packet 
+matchKey{  match
+	calculatedFrom
+as 
+// " ++ [27880; 37322]%N ++ runes_of_ascii "
+
+	Packet { [ """ ++ [28040; 24687]%N ++ runes_of_ascii """ , ""packet""	//
+]
+	: 	 // packet A { u8 x, }
+    rootA
+
+,
+
+    } ,	} 
+options
+{
+
+    uint8x	= false ;
+	} ")).
+Eval vm_compute in ("<<<M4192>>>" ++ check (runes_of_ascii "
+root
+packet matchKey// trailing space 
+
+{  // a // b
+	  u8 roots  `two words`
+
+    ,  // " ++ [27880; 37322]%N ++ runes_of_ascii "
+    }	//	t
+	root
+	packet 
+float
+{ @rightPad (	'0' 
+)
+
+i8i8  ,packetx
+
+    @calculatedFrom( ""a\\""
+    )
+,float32
+trueish `
+`  ,
+@calculatedFrom( 
+""x y""// c
+	  )
+@lengthOf( 	 //
+
+  o
+// c
+/// triple
+)
+    @lengthOf( uint8x 
+)
+i16
+
+    Logon ,@leftPad ( ' '
+	) @lengthOf(  zchar)
+	@lengthOf( x_y_z
+
+    )
+o
+
+matchKey  `" ++ [233]%N ++ runes_of_ascii "`
+
+,  match
+    u8x as
+
+    Z9_ 
+{	""a\""b""
+:	// " ++ [27880; 37322]%N ++ runes_of_ascii "
+	  _x, }	,
+crc
+BodyLength
+
+`it's` ,
+
+    } 
+
+//
+ 
+")).
+Eval vm_compute in ("<<<M397>>>" ++ check (runes_of_ascii "
+root
+packet rootA	{@calculatedFrom( """ ++ [28040; 24687]%N ++ runes_of_ascii """ ) u  `" ++ [233]%N ++ runes_of_ascii "` , body , // " ++ [27880; 37322]%N ++ runes_of_ascii "
+x
+    @lengthOf( options1 // @lengthOf(
+)
+,
+// " ++ [128512]%N ++ runes_of_ascii " emoji
+// c
+matchKey , @calculatedFrom( ""packet"" ) char[] f32a , u8 options1	`tab	here`
+    , } packet Packet//
+{
+    } options
+    { chars = 00 ;
+Foo// packet A { u8 x, }
+= true ;trueish
+    // " ++ [27880; 37322]%N ++ runes_of_ascii "
+    = ""1""; zchar = f64; matchKey =// " ++ [27880; 37322]%N ++ runes_of_ascii "
+false ; } packet metadata {
+    @leftPad
+    ( '\x00' ) f32 charz @calculatedFrom(  ""{,}""
+)
+    `// not a comment`
+,@calculatedFrom(""1""
+) repeat int8 crc ,	}
+")).
+Eval vm_compute in ("<<<M3645>>>" ++ check (runes_of_ascii "
+options{	LittleEndian
+=	false
+	;ArrayPrefixLenType
+=
+	u8
+
+;  FixedStringPadChar
+
+    =
+
+'0'
+;  } packet Order {
+	InNote94{ f32
+    f1
+,f64
+Side2	,
+    repeat
+InTail47
+{ char[] 
+seqNo
+
+,
+    char[] Tail
+    , char[] lastPx
+, } , },zchar[
+
+    7
+
+    ]  f1  ,u8 Side2,
+} 
+root
+
+    packet
+
+Reject{
+repeat
+
+    char[	4 ]  Flags,  InPrice63{ InSeqno41
+
+{repeat i8
+	OrderId ,  repeat
+    i32  clOrdID ,	char[	9
+]
+	tag7
+	,char[]
+	lastPx , }
+	,
+Order ,
+
+    uint8 Side2	,
 }
-, repeat float32 packetx , asx `u8 x,` // trailing space 
-, lengthOf ,
-roots
-, }")).
-Eval vm_compute in ("<<<M2031>>>" ++ check (runes_of_ascii "MetaData
+
+, } ")).
+Eval vm_compute in ("<<<M4483>>>" ++ check (runes_of_ascii "packet x {
+    repeat string_ {
+        repeat asx Foo,
+        int16 i8i8,
+        char[] matchKey,
+        // @lengthOf(
+        // trailing space 
+        match calculatedFrom as roots {
+            3 : x_y_z,
+        },
+    },
+    @lengthOf(x)
+    repeat o `say ""hi""`,//	t
+    char[] string_ `" ++ [28040; 24687; 31867; 22411]%N ++ runes_of_ascii "`,
+    @lengthOf(f32a)
+    match Pad as A {
+        ""a	b"" : u128,
+        [""\" ++ [233]%N ++ runes_of_ascii """, 65535, 255, ""CRC32"", 1] : i8i8,
+        0123456789 : falsey,
+    },
+}
+
+packet zchar {
+}")).
+Eval vm_compute in ("<<<M790>>>" ++ check (runes_of_ascii "
+options { } options {a1
+= ' ' falsey
+=
+    //	t
+    false ; f32a =10 ;
+    // packet A { u8 x, }
+    } packet u8x
+    { repeat BodyLength	{ calculatedFrom// " ++ [128512]%N ++ runes_of_ascii " emoji
+@calculatedFrom( ""{,}"" ) `{ , }` , uint8
+MetaDataX `say ""hi""` // `tick` ""quote"" 'q'
+,
+    },}
+MetaData matchKey
+    {
+i8 roots
+    `
+` ,
+i64	rootA`say ""hi""` ,/// triple
+f64
+chars
+    //x
+    `" ++ [28040; 24687; 31867; 22411]%N ++ runes_of_ascii "` , zchar[ 3
+// packet A { u8 x, }
+//
+] asx `" ++ [233]%N ++ runes_of_ascii "` // a // b
+,
+string msg_type	, }
+")).
+Eval vm_compute in ("<<<M1333>>>" ++ check (runes_of_ascii "root	packet chars{
+uint16
+//x
+// @lengthOf(
+As
+@lengthOf( len )
+,
+    // trailing space 
+    repeat char[ 4294967296
+]	Header ,@calculatedFrom( ""a	b""
+    ) @tag(
+1
+)@lengthOf( uint8x //
+) T msg_type ,
+@lengthOf(
+u8x )lengthOf int
+    // packet A { u8 x, }
+    `" ++ [28040; 24687; 31867; 22411]%N ++ runes_of_ascii "` ,
+@leftPad
+('0'
+) @calculatedFrom( ""a	b"") char[] packetx`say ""hi""`
+, uint8x	{ float32 tag , }
+    , @leftPad ( )char[ 3  ]
+    msg_type `" ++ [233]%N ++ runes_of_ascii "` ,
+    } options{
+}
+")).
+Eval vm_compute in ("<<<M902>>>" ++ check (runes_of_ascii "// c
+options
+{// " ++ [27880; 37322]%N ++ runes_of_ascii "
+MetaDataX = 0} root packet Z9_{char[]  packetx `doc`,BodyLength
+zchar
+,float32
+BodyLength , @calculatedFrom(
+""\" ++ [233]%N ++ runes_of_ascii """
+) match trueish  as// a // b
+T { 255
+: uint8x // @lengthOf(
+, // packet A { u8 x, }
+""" ++ [233]%N ++ runes_of_ascii "t" ++ [233]%N ++ runes_of_ascii """ :
+    charz
+,""a\\"" : falsey ""{,}"" : MetaDataX ,  }
+,// trailing space 
+}
+    options {} options {msg_type = 42 pack =
+true repeatCount
+=4294967296 ; leftPad =
+    ""it's"" // " ++ [27880; 37322]%N ++ runes_of_ascii "
+;
+    }")).
+Eval vm_compute in ("<<<M3778>>>" ++ check (runes_of_ascii "/// triple
+MetaData x {
+    uint64 u `doc`,
+}
+
+root packet i8i8 {
+    uint32 zchar @lengthOf(chars),
+    string rootA @calculatedFrom(""\n""),
+}
+
+packet MetaDataX {
+    i32 A @lengthOf(string_) ``,
+    @calculatedFrom(""a\\"")
+    @lengthOf(roots)
+    msg_type asx `crlf
+        line`,
+    @lengthOf(metadata)
+    @calculatedFrom(""" ++ [28040; 24687]%N ++ runes_of_ascii """)
+    @leftPad()
+    repeat string o `// not a comment`,
+}//x")).
+Eval vm_compute in ("<<<M1089>>>" ++ check (runes_of_ascii "packet	u8x /// triple
+{ @calculatedFrom( ""\" ++ [233]%N ++ runes_of_ascii """ ) zchar[
+255 ]
+A /// triple
+@calculatedFrom( ""a	b"" )
+    ,string MetaDataX @lengthOf( Pad  ) , f32a @calculatedFrom(
+""a\""b""
+    ) ,  zchar[
+4294967296 ] tag @calculatedFrom( """ ++ [28040; 24687]%N ++ runes_of_ascii """ // `tick` ""quote"" 'q'
+)
+,@tag( 0123456789 )
+    @lengthOf(  Header)int64 A `` ,
+char[]
+/// triple
+// packet A { u8 x, }
+x_y_z ,} packet	Logon {	}
+")).
+Eval vm_compute in ("<<<M245>>>" ++ check (runes_of_ascii "root packet  roots
+{ falsey@calculatedFrom(""a\""b"" ) ,
+    @lengthOf(
+A )Header @calculatedFrom( ""packet""
+) `u8 x,` ,
+@leftPad  (' '
+) @lengthOf(
+    calculatedFrom)
+// `tick` ""quote"" 'q'
+// packet A { u8 x, }
+match rootA as x_y_z {42	:
+    //	t
+    len, }, } options //x
+{ chars =// c
+4294967296 ;
+    BodyLength
+    = 0123456789 roots
+    = ""a\""b"";
+} //")).
+Eval vm_compute in ("<<<M3840>>>" ++ check (runes_of_ascii "
+MetaData T
+{
+
+    }
+	root packet  MetaDataX { 
+// packet A { u8 x, }
+
+  // `tick` ""quote"" 'q'
+@lengthOf(	trueish
+
+    )
+
+    repeat 
+  //
+  //	t
+      BodyLength`` ,
+    }MetaData 
+A	// `tick` ""quote"" 'q'
+{float32  trueish, 
+}
+
+    packet
+
+o 
+    //x
+  {
+@lengthOf( Foo
+	)
+i8i8
+stringy , 
+}
+MetaData trueish 
+{	string
+    o , } ")).
+Eval vm_compute in ("<<<M347>>>" ++ check (runes_of_ascii "packet  f32a { }packet
+metadata
+{
+@calculatedFrom(
+""\" ++ [233]%N ++ runes_of_ascii """
+) repeat _x { string
+    // a // b
+    falsey , } ,
+@calculatedFrom( ""it's"" ) As leftPad `a\`
+,	@calculatedFrom( ""abc""
+) char[ //	t
+0 ]roots	,  @tag(
+    00 )match Pad as	roots
+{ 10 :x_y_z , 00 :  len [ ""// no comment""	]// a // b
+:  T }
+    , a1 Header `" ++ [233]%N ++ runes_of_ascii "`
+, // " ++ [27880; 37322]%N ++ runes_of_ascii "
+}")).
+Eval vm_compute in ("<<<M2048>>>" ++ check (runes_of_ascii "MetaData
     u { }  options {
 // c
 // @lengthOf(
@@ -1592,14 +1836,14 @@ repeatCount
 = 0
 u128
     //
-    = false ; i64_ i64_
+    = false ; i64_
 // trailing space 
 // `tick` ""quote"" 'q'
-= '0' ; //	t
+= '0' float64 //	t
 }
 ")).
-Eval vm_compute in ("<<<M1976>>>" ++ check (runes_of_ascii "MetaData
-    u { }  options {
+Eval vm_compute in ("<<<M1873>>>" ++ check (runes_of_ascii "MetaData
+    u { asx  options {
 // c
 // @lengthOf(
 float = int8 ;rootA =false ; As =	int16 // `tick` ""quote"" 'q'
@@ -1609,7 +1853,7 @@ repeatCount
     int16
 ; u8x =
     //	t
-    '\x00' ; ; } options	{
+    '\x00' ; } options	{
     repeatCount
 = 0
 u128
@@ -1620,366 +1864,398 @@ u128
 = '0' ; //	t
 }
 ")).
-Eval vm_compute in ("<<<M752>>>" ++ check (runes_of_ascii "packet o {@leftPad () repeat pack { zchar[ 0123456789 ] o`say ""hi""`  ,
-} ,  }
-    packet T { match T as
-pack
-{65535 :
-// " ++ [27880; 37322]%N ++ runes_of_ascii "
+Eval vm_compute in ("<<<M987>>>" ++ check (runes_of_ascii "options
+{ // a // b
+Header //
+=
+""// no comment""As
+    = ""`tick`""Header
+    = f32// packet A { u8 x, }
+; leftPad
+=
+10	o =
+    '\x00'
+    }// " ++ [128512]%N ++ runes_of_ascii " emoji
+packet metadata
 //x
-roots
-    // " ++ [27880; 37322]%N ++ runes_of_ascii "
-    ,} , matchKey Logon	, match f32a  as
-    x { 3 :
-    i8i8  ,	1 : a1,
-    // " ++ [128512]%N ++ runes_of_ascii " emoji
-    """ ++ [128512]%N ++ runes_of_ascii """
-:	o, 7 :
-BodyLength // c
-,	}
-, repeat i32 u128 , // trailing space 
-}
-")).
-Eval vm_compute in ("<<<M1982>>>" ++ check (runes_of_ascii "MetaData
-    u { }  options {
-// c
-// @lengthOf(
-float = int8 ;rootA =false ; As =	int16 // `tick` ""quote"" 'q'
-repeatCount
-    // trailing space 
-    =
-    int16
-; u8x =
-    //	t
-    '\x00' ; options }	{
-    repeatCount
-= 0
-u128
-    //
-    = false ; i64_
-// trailing space 
-// `tick` ""quote"" 'q'
-= '0' ; //	t
-}
-")).
-Eval vm_compute in ("<<<M1988>>>" ++ check (runes_of_ascii "MetaData
-    u { }  options {
-// c
-// @lengthOf(
-float = int8 ;rootA =false ; As =	int16 // `tick` ""quote"" 'q'
-repeatCount
-    // trailing space 
-    =
-    int16
-; u8x =
-    //	t
-    '\x00' ; } zchar[	{
-    repeatCount
-= 0
-u128
-    //
-    = false ; i64_
-// trailing space 
-// `tick` ""quote"" 'q'
-= '0' ; //	t
-}
-")).
-Eval vm_compute in ("<<<M551>>>" ++ check (runes_of_ascii "packet options1 {
-    @calculatedFrom(// trailing space 
-""" ++ [233]%N ++ runes_of_ascii "t" ++ [233]%N ++ runes_of_ascii """
-)
-@calculatedFrom(""packet"") repeat
-int16
-calculatedFrom
-,
-    @rightPad( ) Z9_
-// `tick` ""quote"" 'q'
-// `tick` ""quote"" 'q'
-@calculatedFrom( """ ++ [128512]%N ++ runes_of_ascii """ )
-`line1
-line2` , int64
-    rootA
-,
-_x@calculatedFrom( ""a	b""
-// `tick` ""quote"" 'q'
-//	t
-)
-    ,	}
-")).
-Eval vm_compute in ("<<<M290>>>" ++ check (runes_of_ascii "packet i8i8
-{ zchar[	10 ]a1 ,	}packet x_y_z {
-//
-// c
-} options{	matchKey
-= false// " ++ [128512]%N ++ runes_of_ascii " emoji
-;
-Foo=
-i32 ; MetaDataX  = 007 pack =
-""" ++ [28040; 24687]%N ++ runes_of_ascii """
-// a // b
-// c
-; }  packet leftPad  {} root packet// a // b
-stringy{/// triple
-rootA Pad ,	falsey @calculatedFrom( ""it's"") `two words` , u8x float
-, int64
-u8x, } //x")).
-Eval vm_compute in ("<<<M672>>>" ++ check (runes_of_ascii "//
-root packet  Foo{ char[]//
-leftPad // trailing space 
-,}options { } root
-packet i64_ { @lengthOf( x_y_z ) @calculatedFrom( ""abc"" )  @lengthOf( leftPad )
-repeat body	zchar `it's`  , char[]
-    metadata @lengthOf( MetaDataX
-//	t
 /// triple
-) `doc`
-    , repeat
-Foo Header , /// triple
-}
-")).
-Eval vm_compute in ("<<<M3717>>>" ++ check (runes_of_ascii "
-// top
-
-MetaData
-	    // c0
-    body 
-    // c1
-  { 
-    // c2
-i64
-    // c3
-  pack 
-// c4
-    `it's`
-    // c5
-  	,
-
-// c6
-	}
-
-// c7
-
-packet
-	// c8
-stringy
-        // c9
-{ 
-
-// c10
-int16
-	// c11
-    	calculatedFrom 
-        // c12
-  ,
-	    // c13
-  }
-    // c14
-")).
-Eval vm_compute in ("<<<M332>>>" ++ check (runes_of_ascii "// packet A { u8 x, }
-options{
-    T
-=""packet"" ; } MetaData x_y_z
-{
-char roots ,
-    T f32a `{ , }`, } root packet // " ++ [128512]%N ++ runes_of_ascii " emoji
-uint8x
-{ @calculatedFrom( ""// no comment"") repeat As
-{rootA
-@calculatedFrom(
-""" ++ [28040; 24687]%N ++ runes_of_ascii """ ) `{ , }` , u16 zchar`{ , }` ,  char[	7
-]o `" ++ [233]%N ++ runes_of_ascii "` ,
-} ,}
-")).
-Eval vm_compute in ("<<<M1489>>>" ++ check (runes_of_ascii "packet packet
-//	t
-// trailing space 
-_x {
-// packet A { u8 x, }
+{ @rightPad
+    ('0') @leftPad
 // c
-char[
-3
-    ] u8x @lengthOf(
-u8x ) , @calculatedFrom(""" ++ [128512]%N ++ runes_of_ascii """ // @lengthOf(
-)
-i16	Foo
-@lengthOf(	string_
-    )`doc`	, repeat	i64 metadata , @lengthOf( string_
-) i8 // c
-u  `line1
-line2`	,
-}
-")).
-Eval vm_compute in ("<<<M1498>>>" ++ check (runes_of_ascii "packet
-//	t
 // trailing space 
-_x { {
-// packet A { u8 x, }
-// c
-char[
-3
-    ] u8x @lengthOf(
-u8x ) , @calculatedFrom(""" ++ [128512]%N ++ runes_of_ascii """ // @lengthOf(
-)
-i16	Foo
-@lengthOf(	string_
-    )`doc`	, repeat	i64 metadata , @lengthOf( string_
-) i8 // c
-u  `line1
-line2`	,
-}
-")).
-Eval vm_compute in ("<<<M1665>>>" ++ check ([65279]%N ++ runes_of_ascii "packet
-//	t
-// trailing space 
-_x {
-// packet A { u8 x, }
-// c
-char[
-3
-    ] u8x @lengthOf(
-u8x ) , @calculatedFrom(""" ++ [128512]%N ++ runes_of_ascii """ // @lengthOf(
-)
-i16	Foo
-@lengthOf(	string_
-    )`doc`	, repeat	i64 metadata , @lengthOf( string_
-) i8 // c
-u  `line1
-line2`	,
-}
-")).
-Eval vm_compute in ("<<<M1589>>>" ++ check (runes_of_ascii "packet
-//	t
-// trailing space 
-_x {
-// packet A { u8 x, }
-// c
-char[
-3
-    ] u8x @lengthOf(
-u8x ) , @calculatedFrom(""" ++ [128512]%N ++ runes_of_ascii """ // @lengthOf(
-)
-i16	Foo
-@lengthOf(	string_
-    )`doc`	repeat ,	i64 metadata , @lengthOf( string_
-) i8 // c
-u  `line1
-line2`	,
-}
-")).
-Eval vm_compute in ("<<<M1642>>>" ++ check (runes_of_ascii "packet
-//	t
-// trailing space 
-_x {
-// packet A { u8 x, }
-// c
-char[
-3
-    ] u8x @lengthOf(
-u8x ) , @calculatedFrom(""" ++ [128512]%N ++ runes_of_ascii """ // @lengthOf(
-)
-i16	Foo
-@lengthOf(	string_
-    )`doc`	, repeat	i64 metadata , @lengthOf( string_
-) i8 // c
-u  `line1
-line2`	
-}
-")).
-Eval vm_compute in ("<<<M1488>>>" ++ check (runes_of_ascii "
-//	t
-// trailing space 
-_x {
-// packet A { u8 x, }
-// c
-char[
-3
-    ] u8x @lengthOf(
-u8x ) , @calculatedFrom(""" ++ [128512]%N ++ runes_of_ascii """ // @lengthOf(
-)
-i16	Foo
-@lengthOf(	string_
-    )`doc`	, repeat	i64 metadata , @lengthOf( string_
-) i8 // c
-u  `line1
-line2`	,
-}
-")).
-Eval vm_compute in ("<<<M1004>>>" ++ check (runes_of_ascii "root
-packet calculatedFrom { repeat string charz,@calculatedFrom( """ ++ [233]%N ++ runes_of_ascii "t" ++ [233]%N ++ runes_of_ascii """
-)
-Foo @lengthOf(
-    tag ) `a\`,match
-_x  as
-    As // c
-{""{,}"" :f32a,	} ,}
-    MetaData body { leftPad asx , u Pad //x
-`
-` , zchar[3]
-leftPad ,
-metadata chars ,	}
-")).
-Eval vm_compute in ("<<<M637>>>" ++ check (runes_of_ascii "
-packet charz {
-repeat
-zchar[
-    // @lengthOf(
-    007/// triple
-]/// triple
-falsey
-    `line1
-line2` ,
-}	root packet
-    leftPad {
-x
-    metadata
-, }	packet
-rootA { char[65535
-    // c
-    ]chars , } options { body
-= ' '
+(
+'\x00' )
+    @rightPad ( )
+    string string_`say ""hi""`,
+    } options  {
 }")).
-Eval vm_compute in ("<<<M677>>>" ++ check (runes_of_ascii "root packet
-    leftPad
-    { @lengthOf(
-/// triple
-//x
-_x ) // trailing space 
-stringy{
-Pad //
-{ stringy falsey , int32 metadata @lengthOf( x_y_z)
-, }, }
-, @rightPad ( )
-@tag( 10 ) BodyLength
-    `say ""hi""`
-,
-    }")).
-Eval vm_compute in ("<<<M1145>>>" ++ check (runes_of_ascii "MetaData
-calculatedFrom
-{
-    Foo uint8x,o Packet `a\`
-, int8
-Packet
-,
-As calculatedFrom
-, } options  { T
+Eval vm_compute in ("<<<M1937>>>" ++ check (runes_of_ascii "MetaData
+    u { }  options {
+// c
+// @lengthOf(
+float = int8 ;rootA =false ; As =	repeatCount // `tick` ""quote"" 'q'
+int16
+    // trailing space 
+    =
+    int16
+; u8x =
+    //	t
+    '\x00' ; } options	{
+    repeatCount
+= 0
+u128
+    //
+    = false ; i64_
+// trailing space 
+// `tick` ""quote"" 'q'
+= '0' ; //	t
+}
+")).
+Eval vm_compute in ("<<<M1865>>>" ++ check (runes_of_ascii "MetaData
+    u  }  options {
+// c
+// @lengthOf(
+float = int8 ;rootA =false ; As =	int16 // `tick` ""quote"" 'q'
+repeatCount
+    // trailing space 
+    =
+    int16
+; u8x =
+    //	t
+    '\x00' ; } options	{
+    repeatCount
+= 0
+u128
+    //
+    = false ; i64_
+// trailing space 
+// `tick` ""quote"" 'q'
+= '0' ; //	t
+}
+")).
+Eval vm_compute in ("<<<M2040>>>" ++ check (runes_of_ascii "MetaData
+    u { }  options {
+// c
+// @lengthOf(
+float = int8 ;rootA =false ; As =	int16 // `tick` ""quote"" 'q'
+repeatCount
+    // trailing space 
+    =
+    int16
+; u8x =
+    //	t
+    '\x00' ; } options	{
+    repeatCount
+= 0
+u128
+    //
+    = false ; i64_
+// trailing space 
+// `tick` ""quote"" 'q'
+=  ; //	t
+}
+")).
+Eval vm_compute in ("<<<M822>>>" ++ check (runes_of_ascii "packet
+packetx {
+    match i64_ as roots
 // trailing space 
 // c
-= u64 ; stringy =/// triple
-f64 ; BodyLength =
+{ 7
+:
+x 42 :  asx
+    // @lengthOf(
+    , 65535 : i64_ [ 00 // `tick` ""quote"" 'q'
+, 1 ] : Z9_ [ // c
+""\n"",3,
+007 ]
+    :float ,
+} , }MetaData metadata {	char[]Header `" ++ [28040; 24687; 31867; 22411]%N ++ runes_of_ascii "` ,Foo stringy
+, uint64 body , f32	a1
+    , } packet
+    chars{ }")).
+Eval vm_compute in ("<<<M2055>>>" ++ check (runes_of_ascii "MetaData
+    u { }  options {
+// c
+// @lengthOf(
+float = int8 ;rootA =false ; As =	int16 // `tick` ""quote"" 'q'
+repeatCount
+    // trailing space 
+    =
+    int16
+; u8x =
+    //	t
+    '\x00' ; } options	{
+    repeatCount
+= 0
+u128
+    //
+    = false ; i64_
+// trailing space 
+// `tick` ""quote"" 'q")).
+Eval vm_compute in ("<<<M160>>>" ++ check (runes_of_ascii "packet matchKey
+{ // packet A { u8 x, }
+zchar[ 65535
+//	t
+// packet A { u8 x, }
+] Foo @calculatedFrom(
+// " ++ [128512]%N ++ runes_of_ascii " emoji
 // a // b
-/// triple
-true ; } 	 ")).
-Eval vm_compute in ("<<<M1732>>>" ++ check (runes_of_ascii "options { trueish = ""`tick`"" ; string_= """ ++ [233]%N ++ runes_of_ascii "t" ++ [233]%N ++ runes_of_ascii """
+""\n"" ) ``, @tag(10 ) repeat
+x Logon`
+` , @calculatedFrom(
+    ""it's"" ) @rightPad (
+) zchar[ 255 ]	lengthOf
+    // @lengthOf(
+    , repeat uint8x`" ++ [233]%N ++ runes_of_ascii "`
+,
+    }
+")).
+Eval vm_compute in ("<<<M4388>>>" ++ check (runes_of_ascii "  packet
+
+    options1
+{
+
+    @leftPad
+(
+'0'	)
+	repeat
+char[ 1
+]	// " ++ [27880; 37322]%N ++ runes_of_ascii "
+  roots  `
+` ,
+i32
+A `
+` 
+,
+    repeat
+    char[
+	3] stringy  // `tick` ""quote"" 'q'
+	,
+repeat
+
+f64	Z9_
+
+    `tab	here` ,
+	}packet  T{@tag(00
+
+    )repeat
+	float`say ""hi""`	,	}	/// triple
+")).
+Eval vm_compute in ("<<<M1613>>>" ++ check (runes_of_ascii "packet
+//	t
+// trailing space 
+_x {
+// packet A { u8 x, }
+// c
+char[
+3
+    ] u8x @lengthOf(
+u8x ) , @calculatedFrom(""" ++ [128512]%N ++ runes_of_ascii """ // @lengthOf(
+)
+i16	Foo
+@lengthOf(	string_
+    )`doc`	, repeat	i64 metadata , @lengthOf( @lengthOf( string_
+) i8 // c
+u  `line1
+line2`	,
+}
+")).
+Eval vm_compute in ("<<<M4539>>>" ++ check (runes_of_ascii "
+MetaData As
+
+{
+	BodyLength roots 
+, uint8x  uint8x  ,}  packet pack
+
+    /// triple
+	{ 
+lengthOf`crlf
+line`
+, char  i8i8
+,@tag(	4294967296
+    )
+	zchar[ 1
+
+] Header `say ""hi""`,@tag(
+
+    4294967296
+
+    ) string
+
+    chars  ,
+}
+// trailing space ")).
+Eval vm_compute in ("<<<M1590>>>" ++ check (runes_of_ascii "packet
+//	t
+// trailing space 
+_x {
+// packet A { u8 x, }
+// c
+char[
+3
+    ] u8x @lengthOf(
+u8x ) , @calculatedFrom(""" ++ [128512]%N ++ runes_of_ascii """ // @lengthOf(
+)
+i16	Foo
+@lengthOf(	string_
+    )`doc`	u16 repeat	i64 metadata , @lengthOf( string_
+) i8 // c
+u  `line1
+line2`	,
+}
+")).
+Eval vm_compute in ("<<<M1494>>>" ++ check (runes_of_ascii "packet
+//	t
+// trailing space 
+{ _x
+// packet A { u8 x, }
+// c
+char[
+3
+    ] u8x @lengthOf(
+u8x ) , @calculatedFrom(""" ++ [128512]%N ++ runes_of_ascii """ // @lengthOf(
+)
+i16	Foo
+@lengthOf(	string_
+    )`doc`	, repeat	i64 metadata , @lengthOf( string_
+) i8 // c
+u  `line1
+line2`	,
+}
+")).
+Eval vm_compute in ("<<<M1639>>>" ++ check (runes_of_ascii "packet
+//	t
+// trailing space 
+_x {
+// packet A { u8 x, }
+// c
+char[
+3
+    ] u8x @lengthOf(
+u8x ) , @calculatedFrom(""" ++ [128512]%N ++ runes_of_ascii """ // @lengthOf(
+)
+i16	Foo
+@lengthOf(	string_
+    )`doc`	, repeat	i64 metadata , @lengthOf( string_
+) i8 // c
+u  ,	`line1
+line2`
+}
+")).
+Eval vm_compute in ("<<<M1527>>>" ++ check (runes_of_ascii "packet
+//	t
+// trailing space 
+_x {
+// packet A { u8 x, }
+// c
+char[
+3
+    ] u8x @lengthOf(
+ ) , @calculatedFrom(""" ++ [128512]%N ++ runes_of_ascii """ // @lengthOf(
+)
+i16	Foo
+@lengthOf(	string_
+    )`doc`	, repeat	i64 metadata , @lengthOf( string_
+) i8 // c
+u  `line1
+line2`	,
+}
+")).
+Eval vm_compute in ("<<<M1525>>>" ++ check (runes_of_ascii "packet
+//	t
+// trailing space 
+_x {
+// packet A { u8 x, }
+// c
+char[
+3
+    ] u8x 3
+u8x ) , @calculatedFrom(""" ++ [128512]%N ++ runes_of_ascii """ // @lengthOf(
+)
+i16	Foo
+@lengthOf(	string_
+    )`doc`	, repeat	i64 metadata , @lengthOf( string_
+) i8 // c
+u  `line1
+line2`	,
+}
+")).
+Eval vm_compute in ("<<<M3777>>>" ++ check (runes_of_ascii "packet Sub {
+    u8 a,
+    @calculatedFrom(""CRC16"")
+    u16 SubSum,
+}
+
+root packet Frame {
+    u16 MsgType,
+    u16 BodyLen @lengthOf(Body),
+    Sub Body,
+    string note,
+    @calculatedFrom(""CRC16"")
+    u16 Checksum,
+    u8 tail,
+}")).
+Eval vm_compute in ("<<<M3426>>>" ++ check (runes_of_ascii "// top
+packet // c0a
+  // c0b
+o { repeat
+    // c3
+Logon uint8x // c5
+,
+    // c6
+} options // c8
+{ // c9
+asx
+    // c10
+= // c11a
+  // c11b
+zchar[ // c12
+3
+    // c13
+] stringy // c15
+=
+    // c16
+'\x00' // c17
+}
+    // c18
+")).
+Eval vm_compute in ("<<<M1762>>>" ++ check (runes_of_ascii "options { trueish = ""`tick`"" ; string_= """ ++ [233]%N ++ runes_of_ascii "t" ++ [233]%N ++ runes_of_ascii """
     // c
     } root
-    packet body body { stringy @calculatedFrom(
+    packet body { stringy @calculatedFrom(
 ""a	b"" ) `line1
+line2` `line1
 line2` , }
 packet Logon {
     @leftPad(
     ' ' ) //	t
 u16 string_ `u8 x,` ,
 }
+")).
+Eval vm_compute in ("<<<M488>>>" ++ check (runes_of_ascii "MetaData x	{ uint32 u8x `" ++ [28040; 24687; 31867; 22411]%N ++ runes_of_ascii "`
+    ,}
+// packet A { u8 x, }
+// " ++ [128512]%N ++ runes_of_ascii " emoji
+MetaData o {
+    }
+    // packet A { u8 x, }
+    packet
+pack	{ // packet A { u8 x, }
+repeat
+    zchar[
+4294967296 // a // b
+]
+roots
+    , }")).
+Eval vm_compute in ("<<<M952>>>" ++ check (runes_of_ascii "
+packet roots{pack, @calculatedFrom( ""it's""
+)
+    MetaDataX @lengthOf( u
+) , @lengthOf(//x
+falsey  ) metadata _x	`doc` , } options{ BodyLength =	""" ++ [28040; 24687]%N ++ runes_of_ascii """; Packet = 0123456789 ; T=
+    ' ' ; T = 4294967296
+;
+    }
 ")).
 Eval vm_compute in ("<<<M1807>>>" ++ check (runes_of_ascii "options { trueish = ""`tick`"" ; string_= """ ++ [233]%N ++ runes_of_ascii "t" ++ [233]%N ++ runes_of_ascii """
     // c
@@ -2017,9 +2293,9 @@ packet Logon {
 u16 string_ `u8 x,` }
 ,
 ")).
-Eval vm_compute in ("<<<M1714>>>" ++ check (runes_of_ascii "options { trueish = ""`tick`"" ; string_= (
+Eval vm_compute in ("<<<M1721>>>" ++ check (runes_of_ascii "options { trueish = ""`tick`"" ; string_= """ ++ [233]%N ++ runes_of_ascii "t" ++ [233]%N ++ runes_of_ascii """
     // c
-    } root
+    } 
     packet body { stringy @calculatedFrom(
 ""a	b"" ) `line1
 line2` , }
@@ -2029,23 +2305,18 @@ packet Logon {
 u16 string_ `u8 x,` ,
 }
 ")).
-Eval vm_compute in ("<<<M1821>>>" ++ check (runes_of_ascii "options { trueish = ""`tick`"" ; string_= """ ++ [233]%N ++ runes_of_ascii "t" ++ [233]%N ++ runes_of_ascii """
+Eval vm_compute in ("<<<M657>>>" ++ check (runes_of_ascii "packet u8x{@calculatedFrom( """ ++ [128512]%N ++ runes_of_ascii """ )
+rootA @lengthOf(stringy ), lengthOf ,@lengthOf(  u8x )
+    i64_ @calculatedFrom( ""a\""b""//x
+) ,
+@lengthOf( matchKey )
+@lengthOf( rootA	) float32 trueish
+,  } // " ++ [27880; 37322]%N)).
+Eval vm_compute in ("<<<M1761>>>" ++ check (runes_of_ascii "options { trueish = ""`tick`"" ; string_= """ ++ [233]%N ++ runes_of_ascii "t" ++ [233]%N ++ runes_of_ascii """
     // c
     } root
     packet body { stringy @calculatedFrom(
-""a	b"" ) `line1
-line2` , }
-packet Logon {
-    @leftPad(
-    ' ' ) //	t
-u16 string_  ,
-}
-")).
-Eval vm_compute in ("<<<M1764>>>" ++ check (runes_of_ascii "options { trueish = ""`tick`"" ; string_= """ ++ [233]%N ++ runes_of_ascii "t" ++ [233]%N ++ runes_of_ascii """
-    // c
-    } root
-    packet body { stringy @calculatedFrom(
-""a	b"" ) , , }
+""a	b"" )  , }
 packet Logon {
     @leftPad(
     ' ' ) //	t
@@ -2067,85 +2338,78 @@ packet u128
     ) i64 T
 ,
 }")).
-Eval vm_compute in ("<<<M2054>>>" ++ check (runes_of_ascii "MetaData
-    u { }  options {
-// c
-// @lengthOf(
-float = int8 ;rootA =false ; As =	int16 // `tick` ""quote"" 'q'
-repeatCount
-    // trailing space 
-    =
-    int16
-; u8x =
-    ")).
-Eval vm_compute in ("<<<M1377>>>" ++ check (runes_of_ascii "packet trueish { Header repeatCount
-,
-    repeat metadata //	t
-tag // packet A { u8 x, }
-, //	t
-@lengthOf( calculatedFrom	) MetaDataX @lengthOf( packetx ) // a // b
-, }
+Eval vm_compute in ("<<<M3888>>>" ++ check (runes_of_ascii "options { _x =
+	i32
+
+    } 
+options
+
+    {	o
+
+= 	 /// triple
+    false
+; chars= ""\n""  }
+root  packet Pad
+
+/// triple
+    // packet A { u8 x, }
+  {
+    chars 
+// a // b
+,}
 ")).
-Eval vm_compute in ("<<<M1805>>>" ++ check (runes_of_ascii "options { trueish = ""`tick`"" ; string_= """ ++ [233]%N ++ runes_of_ascii "t" ++ [233]%N ++ runes_of_ascii """
-    // c
-    } root
-    packet body { stringy @calculatedFrom(
-""a	b"" ) `line1
-line2` , }
-packet Logon {
-    @leftPad(")).
-Eval vm_compute in ("<<<M2310>>>" ++ check (runes_of_ascii "// c
-packet x { @lengthOf( metadata ) repeat lengthOf
-,a1{
-trueish	,// c
-repeat//	t
-MetaDataX , } , zchar[
-    42	] rootA rootA // `tick` ""quote"" 'q'
-,
-    }
+Eval vm_compute in ("<<<M4436>>>" ++ check (runes_of_ascii "  // packet A { u8 x, }
+	options
+
+{	matchKey=
+    true
+	;
+}	MetaData int
+    { uint16
+
+packetx `tab	here`
+	, }
+options /// triple
+  {
+	msg_type=	""""
+; }	// @lengthOf(
+ 
 ")).
-Eval vm_compute in ("<<<M2145>>>" ++ check (runes_of_ascii "options{
+Eval vm_compute in ("<<<M1224>>>" ++ check (runes_of_ascii "options //
+{} packet	tag //	t
+{ u64
+u @lengthOf(u128 ) , char[]Pad
+    // a // b
+    @lengthOf( crc) ,
+    i32 options1@lengthOf(msg_type// c
+) ,} options {
+    }")).
+Eval vm_compute in ("<<<M4265>>>" ++ check (runes_of_ascii "
+root packet
+matchKey
+
+{ zchar[3  ]
+pack
+
+    @calculatedFrom(
+""a	b"" )  `doc`
+
+    , } 
+options
+        // c
+    { }
+
+MetaData
+    A
+    { int8 msg_type,}
+
+")).
+Eval vm_compute in ("<<<M2095>>>" ++ check (runes_of_ascii "options{
 _x
-= true
+= true true
 } options
 { o	= /// triple
 false
-    ; chars
-= ""\n"" ""\n"" } root packet	Pad
-/// triple
-// packet A { u8 x, }
-{	chars
-    // a // b
-    ,}")).
-Eval vm_compute in ("<<<M1091>>>" ++ check (runes_of_ascii "// " ++ [128512]%N ++ runes_of_ascii " emoji
-packet// @lengthOf(
-string_ {@calculatedFrom(
-""" ++ [233]%N ++ runes_of_ascii "t" ++ [233]%N ++ runes_of_ascii """) repeat
-    i64 MetaDataX  , u64 i8i8
-    `a\`
-,
-    As
-//
-// " ++ [27880; 37322]%N ++ runes_of_ascii "
-, // packet A { u8 x, }
-}
-")).
-Eval vm_compute in ("<<<M2311>>>" ++ check (runes_of_ascii "// c
-packet x { @lengthOf( metadata ) repeat lengthOf
-,a1{
-trueish	,// c
-repeat//	t
-MetaDataX , } , 42
-    zchar[	] rootA // `tick` ""quote"" 'q'
-,
-    }
-")).
-Eval vm_compute in ("<<<M2198>>>" ++ check (runes_of_ascii "options{
-_x
-= true
-} options
-{ o	= /// triple
-f" ++ [233]%N ++ runes_of_ascii "alse
     ; chars
 = ""\n"" } root packet	Pad
 /// triple
@@ -2153,36 +2417,90 @@ f" ++ [233]%N ++ runes_of_ascii "alse
 {	chars
     // a // b
     ,}")).
-Eval vm_compute in ("<<<M2146>>>" ++ check (runes_of_ascii "options{
+Eval vm_compute in ("<<<M2404>>>" ++ check (runes_of_ascii "// c
+packet x { @lengthOf( metadata ) repeat lengthOf
+, ,a1{
+trueish	,// c
+repeat//	t
+MetaDataX , } , zchar[
+    42	] rootA // `tick` ""quote"" 'q'
+,
+    }
+")).
+Eval vm_compute in ("<<<M2150>>>" ++ check (runes_of_ascii "options{
 _x
 = true
 } options
 { o	= /// triple
 false
     ; chars
-= } ""\n"" root packet	Pad
+= ""\n"" } } root packet	Pad
 /// triple
 // packet A { u8 x, }
 {	chars
     // a // b
     ,}")).
-Eval vm_compute in ("<<<M3583>>>" ++ check (runes_of_ascii "packet A {
-    u8 a,
+Eval vm_compute in ("<<<M2192>>>" ++ check (runes_of_ascii "options{
+_x
+= true
+} options
+{ o	= /// triple
+false
+  /  ; chars
+= ""\n"" } root packet	Pad
+/// triple
+// packet A { u8 x, }
+{	chars
+    // a // b
+    ,}")).
+Eval vm_compute in ("<<<M2121>>>" ++ check (runes_of_ascii "options{
+_x
+= true
+} options
+{ o	false /// triple
+=
+    ; chars
+= ""\n"" } root packet	Pad
+/// triple
+// packet A { u8 x, }
+{	chars
+    // a // b
+    ,}")).
+Eval vm_compute in ("<<<M2119>>>" ++ check (runes_of_ascii "options{
+_x
+= true
+} options
+{ o	 /// triple
+false
+    ; chars
+= ""\n"" } root packet	Pad
+/// triple
+// packet A { u8 x, }
+{	chars
+    // a // b
+    ,}")).
+Eval vm_compute in ("<<<M4346>>>" ++ check (runes_of_ascii "  root	packet
+    matchKey
+{  zchar[
+
+3
+	] pack @calculatedFrom( 
+	// c
+
+	""a	b""
+)
+    `doc` 
+, }
+options 
+{}MetaData 
+A{ 
+int8 msg_type
+    ,
 }
-packet B {
-    u16 b,
-}
-root packet P {
-    u8 K,
-    match K as M {
-        [1, 2] : A,
-        3 : B,
-        7 : A,
-    },
-}
+
 ")).
-Eval vm_compute in ("<<<M2357>>>" ++ check (runes_of_ascii "// c
- x { @lengthOf( metadata ) repeat lengthOf
+Eval vm_compute in ("<<<M2420>>>" ++ check (runes_of_ascii "// c
+packet x { @lengthOf( metadata ) repeat 
 ,a1{
 trueish	,// c
 repeat//	t
@@ -2191,332 +2509,346 @@ MetaDataX , } , zchar[
 ,
     }
 ")).
-Eval vm_compute in ("<<<M2057>>>" ++ check (runes_of_ascii "MetaData
-    u { }  options {
-// c
-// @lengthOf(
-float = int8 ;rootA =false ; As =	int16 // `tick` ""quote"" 'q'
-repeatCount
-    // trailing space")).
-Eval vm_compute in ("<<<M198>>>" ++ check (runes_of_ascii "MetaData
-    //x
-    body
-    // a // b
-    { BodyLength stringy ,
-    //	t
-    zchar[ 42 ] o
-    ,
-i64_ lengthOf `{ , }` ,u8 MetaDataX  , }")).
-Eval vm_compute in ("<<<M3582>>>" ++ check (runes_of_ascii "
-
-  packet A  {	u8
-
-    a
-    ,} 
-packet
-    B
-{ 
-u16 b,}
-
-    root packet 
-P 
-{ u8 
-K ,
-match K as M
-{ 
-1  :
-A
-	,1
-:B , }
-    ,
-	}
-")).
-Eval vm_compute in ("<<<M647>>>" ++ check (runes_of_ascii "MetaData a1 { x_y_z crc `say ""hi""` , uint16 i8i8 `// not a comment`
-, char[] u `{ , }`
-, Pad Header
-, u32
-    packetx `{ , }` , }
-")).
-Eval vm_compute in ("<<<M1082>>>" ++ check (runes_of_ascii "packet i8i8 {
-@calculatedFrom( // @lengthOf(
-""it's"")@leftPad ( // " ++ [27880; 37322]%N ++ runes_of_ascii "
-'0'
-) @lengthOf(msg_type  )u8 Logon
-    `tab	here`,
-}
-")).
-Eval vm_compute in ("<<<M4020>>>" ++ check (runes_of_ascii "MetaData msg_type {
-    Packet int,
-    char[3] Foo `// not a comment`,
-    zchar[7] uint8x,
-    leftPad crc `
-        `,
+Eval vm_compute in ("<<<M4477>>>" ++ check (runes_of_ascii "packet A {
+    Inner {
+        u8 x `a
+        
+        b`,
+        Deep {
+            u8 y `a
+            
+            b`,
+        },
+    },
 }")).
-Eval vm_compute in ("<<<M3320>>>" ++ check (runes_of_ascii "root packet matchKey { zchar[ // c
-3 ] pack @calculatedFrom( ""a	b"" ) `doc` , } options { } MetaData A { int8 msg_type , }")).
-Eval vm_compute in ("<<<M3352>>>" ++ check (runes_of_ascii "root packet matchKey { zchar[ 3 ] pack @calculatedFrom( ""a	b"" ) `doc` , } options { } MetaData A { int8 // c
-msg_type , }")).
-Eval vm_compute in ("<<<M1473>>>" ++ check (runes_of_ascii "
+Eval vm_compute in ("<<<M559>>>" ++ check (runes_of_ascii "packet trueish { match
+    falsey as
+    leftPad { // " ++ [128512]%N ++ runes_of_ascii " emoji
+""// no comment"":
+// " ++ [128512]%N ++ runes_of_ascii " emoji
+//
+leftPad } , repeatCount
+string_ `{ , }`
+,}")).
+Eval vm_compute in ("<<<M1464>>>" ++ check (runes_of_ascii "
 packet
     falsey { Header@calculatedFrom(""packet""  ) , char[
     0123456789 ] packetx
-    \, } // `tick` ""quote"" 'q'")).
-Eval vm_compute in ("<<<M2990>>>" ++ check (runes_of_ascii "packet A {
-  match k as n {
-    [""a"", ""bb"", ""c c"", ""d"", ""e"", ""f"", ""g"", ""h"", ""i"", ""j"", ""k"", ""l""] : B,
-    2 : C
-  },
+    , @calculatedFrom( // `tick` ""quote"" 'q'")).
+Eval vm_compute in ("<<<M3961>>>" ++ check (runes_of_ascii "  MetaData
+    float 
+
+// c
+    {
+	float64 charz  `
+` 
+, }	root 
+packet
+
+    chars  {@rightPad
+
+    (
+'0'
+
+)
+    Foo 
+,
+	}
+")).
+Eval vm_compute in ("<<<M4597>>>" ++ check (runes_of_ascii "options {
+    MetaDataX = 3;
+    matchKey = i32
+    T = 1
+}
+
+packet Header {
+    string i64_ @lengthOf(Packet) `say ""hi""`,
 }")).
-Eval vm_compute in ("<<<M3045>>>" ++ check (runes_of_ascii "packet A {
-    u16 len @lengthOf(body) `tab
-	x`,
-    u32 crc @calculatedFrom(""CRC32"") `tab
-	x`,
+Eval vm_compute in ("<<<M3314>>>" ++ check (runes_of_ascii "root packet // c
+matchKey { zchar[ 3 ] pack @calculatedFrom( ""a	b"" ) `doc` , } options { } MetaData A { int8 msg_type , }")).
+Eval vm_compute in ("<<<M3346>>>" ++ check (runes_of_ascii "root packet matchKey { zchar[ 3 ] pack @calculatedFrom( ""a	b"" ) `doc` , } options { } MetaData // c
+A { int8 msg_type , }")).
+Eval vm_compute in ("<<<M3680>>>" ++ check (runes_of_ascii "
+packet
+
+    o
+{
+    repeat
+	Logon uint8x  , }
+
+    // c
+
+	options
+{
+asx
+
+=
+zchar[
+    3  ] stringy =
+    '\x00'
+} ")).
+Eval vm_compute in ("<<<M1414>>>" ++ check (runes_of_ascii "
+packet
+    falsey { @calculatedFrom(Header""packet""  ) , char[
+    0123456789 ] packetx
+    , } // `tick` ""quote"" 'q'")).
+Eval vm_compute in ("<<<M3768>>>" ++ check (runes_of_ascii "  packet
+
+    T
+
+    {@rightPad  (
+
+) 
+@tag(00 
+)
+char[]
+
+a1
+
+@calculatedFrom(
+	""a\""b"" )
+	`two words`  ,
+    } ")).
+Eval vm_compute in ("<<<M4550>>>" ++ check (runes_of_ascii "MetaData body {
+    BodyLength stringy,
+    //	t
+    zchar[42] o,
+    i64_ lengthOf `{ , }`,
+    u8 MetaDataX,
+}")).
+Eval vm_compute in ("<<<M4617>>>" ++ check (runes_of_ascii "packet metadata {
+    Logon {
+        A `" ++ [28040; 24687; 31867; 22411]%N ++ runes_of_ascii "`,
+        tag o,
+    },
+    zchar len `// not a comment`,
+}// c")).
+Eval vm_compute in ("<<<M3039>>>" ++ check (runes_of_ascii "packet A {
+    u16 len @lengthOf(body) `
+x`,
+    u32 crc @calculatedFrom(""CRC32"") `
+x`,
     string body,
 }")).
-Eval vm_compute in ("<<<M1455>>>" ++ check (runes_of_ascii "
-packet
-    falsey { Header@calculatedFrom(""packet""  ) , char[
-    0123456789 ] (
-    , } // `tick` ""quote"" 'q'")).
-Eval vm_compute in ("<<<M466>>>" ++ check (runes_of_ascii "/// triple
-MetaData	asx { roots x_y_z ,
-calculatedFrom o ,
-}
-packet pack { roots
-    // @lengthOf(
-    , }
-")).
-Eval vm_compute in ("<<<M4253>>>" ++ check (runes_of_ascii "packet
-chars {
-    }packet
+Eval vm_compute in ("<<<M3028>>>" ++ check (runes_of_ascii "packet A {
+    Inner {
+        u8 x `a
 
-    MetaDataX
-	{	@tag(42
-	) 
-i16	// c
+b`,
+        Deep {
+            u8 y `a
 
-  string_
-,
-	repeat
-x`say ""hi""` 
-,}")).
-Eval vm_compute in ("<<<M1058>>>" ++ check (runes_of_ascii "options {
-    } packet As {f32 int @calculatedFrom(""{,}"")
-, u8 packetx ,u128 len, } packet options1 {}")).
-Eval vm_compute in ("<<<M926>>>" ++ check (runes_of_ascii "packet u{ repeat tag chars
-,
-//	t
-// a // b
-u16 zchar
-/// triple
-//	t
-,
-uint8 falsey
-    `doc` ,
-}
-")).
-Eval vm_compute in ("<<<M91>>>" ++ check (runes_of_ascii "// trailing space 
-MetaData u8x
-{
-i64_
-    i64_ `doc`,i16 Z9_ `say ""hi""` , BodyLength
-roots ,
+b`,
+        },
+    },
 }")).
-Eval vm_compute in ("<<<M2327>>>" ++ check (runes_of_ascii "// c
+Eval vm_compute in ("<<<M4529>>>" ++ check (runes_of_ascii "  packet
+	A
+{ 
+match	k
+    as
+n{
+    [
+1	,
+22
+    ,  ""c c"", 4 ,	5,
+    ""f"" , 7  ]  :
+	B 2
+:
+C
+},
+}")).
+Eval vm_compute in ("<<<M2367>>>" ++ check (runes_of_ascii "// c
 packet x { @lengthOf( metadata ) repeat lengthOf
 ,a1{
 trueish	,// c
 repeat//	t
-MetaDataX")).
-Eval vm_compute in ("<<<M881>>>" ++ check (runes_of_ascii "MetaData chars
-    {
-pack
-// " ++ [27880; 37322]%N ++ runes_of_ascii "
-/// triple
-calculatedFrom , }options { } // trailing space ")).
-Eval vm_compute in ("<<<M3880>>>" ++ check (runes_of_ascii "packet o {
-    repeat Logon uint8x,
+MetaDataX , }")).
+Eval vm_compute in ("<<<M3752>>>" ++ check (runes_of_ascii "packet A {
+    B b `tab
+        	x`,
+    B `tab
+        	x`,
+    repeat B bs `tab
+        	x`,
+}")).
+Eval vm_compute in ("<<<M2947>>>" ++ check (runes_of_ascii "packet A {
+  match k as n {
+    [""a"", ""bb"", 007, ""d"", ""e"", 66, ""g"", ""h""] : B
+    2 : C
+  },
+}")).
+Eval vm_compute in ("<<<M3184>>>" ++ check (runes_of_ascii "// top
+root // c0
+packet // c1
+u128 // c2
+{ // c3
+chars // c4
+`it's` // c5
+, // c6
+} // c7
+")).
+Eval vm_compute in ("<<<M2288>>>" ++ check (runes_of_ascii "options
+{ } options { BodyLength= u16 Header= f64 ; u128 =
+    true
+    ; true // a // b")).
+Eval vm_compute in ("<<<M3294>>>" ++ check (runes_of_ascii "MetaData float { float64 charz `
+` , } root packet chars { @rightPad
+// c
+( '0' ) Foo , }")).
+Eval vm_compute in ("<<<M3505>>>" ++ check (runes_of_ascii "packet chars { } packet MetaDataX { @tag( 42 ) i16 // c
+string_ , repeat x `say ""hi""` , }")).
+Eval vm_compute in ("<<<M2304>>>" ++ check (runes_of_ascii "options
+{ } options { BodyLength= u16 Header= f64 ; u128 =
+    true
+    ; "" } // a // b")).
+Eval vm_compute in ("<<<M3248>>>" ++ check (runes_of_ascii "packet metadata { Logon { A `" ++ [28040; 24687; 31867; 22411]%N ++ runes_of_ascii "` , tag o , } , zchar len `// not a comment` , }
+// c
+")).
+Eval vm_compute in ("<<<M3213>>>" ++ check (runes_of_ascii "packet // c
+metadata { Logon { A `" ++ [28040; 24687; 31867; 22411]%N ++ runes_of_ascii "` , tag o , } , zchar len `// not a comment` , }")).
+Eval vm_compute in ("<<<M3245>>>" ++ check (runes_of_ascii "packet metadata { Logon { A `" ++ [28040; 24687; 31867; 22411]%N ++ runes_of_ascii "` , tag o , } , zchar len `// not a comment` , // c
+}")).
+Eval vm_compute in ("<<<M3436>>>" ++ check (runes_of_ascii "packet o { repeat
+// c
+Logon uint8x , } options { asx = zchar[ 3 ] stringy = '\x00' }")).
+Eval vm_compute in ("<<<M7>>>" ++ check (runes_of_ascii "packet pack {
+repeat As {
+char[ 65535 // trailing space 
+] crc `crlf
+line` , },
 }
+")).
+Eval vm_compute in ("<<<M3423>>>" ++ check (runes_of_ascii "MetaData body { i64 pack `it's` , } packet stringy { int16 calculatedFrom , }
+// c
+")).
+Eval vm_compute in ("<<<M3411>>>" ++ check (runes_of_ascii "MetaData body { i64 pack `it's` , } packet
+// c
+stringy { int16 calculatedFrom , }")).
+Eval vm_compute in ("<<<M4339>>>" ++ check (runes_of_ascii "options {matchKey
+
+    =0 Header
+    =
+    // " ++ [128512]%N ++ runes_of_ascii " emoji
+	// c
+    ""CRC32""
+    }")).
+Eval vm_compute in ("<<<M2919>>>" ++ check (runes_of_ascii "packet A {
+  match k as n {
+    [1, 22, ""c c"", 4, 5, ""f""] : B
+    2 : C
+  },
+}")).
+Eval vm_compute in ("<<<M2911>>>" ++ check (runes_of_ascii "packet A {
+  match k as n {
+    [1, 22, 007, 4, 5, 66] : B
+    2 : C
+  },
+}")).
+Eval vm_compute in ("<<<M2873>>>" ++ check (runes_of_ascii "packet A {
+  match k as n {
+    [""a"", ""bb"", ""c c""] : B,
+    2 : C
+  },
+}")).
+Eval vm_compute in ("<<<M4508>>>" ++ check (runes_of_ascii "packet Z9_ {
+    @tag(4294967296)
+    uint8x @calculatedFrom(""abc""),
+}")).
+Eval vm_compute in ("<<<M2750>>>" ++ check (runes_of_ascii ") u64 @calculatedFrom( '0' match } packet root float @rightPad { 42")).
+Eval vm_compute in ("<<<M490>>>" ++ check (runes_of_ascii "MetaData pack{
+    }
+packet i64_ {
+    uint16 T , // a // b
+} 	 ")).
+Eval vm_compute in ("<<<M1077>>>" ++ check (runes_of_ascii "options {
+Logon
+= true
+    msg_type
+= '\x00' ;
+T =
+int16 }
+")).
+Eval vm_compute in ("<<<M2280>>>" ++ check (runes_of_ascii "options
+{ } options { BodyLength= u16 Header= f64 ; u128 =")).
+Eval vm_compute in ("<<<M3370>>>" ++ check (runes_of_ascii "packet x {
+// c
+@rightPad ( ) repeat roots Logon `doc` , }")).
+Eval vm_compute in ("<<<M4544>>>" ++ check (runes_of_ascii "
+
+  root
+	packet  zchar
+
+    {  zchar[007
+	]  Foo
+
+,}
+")).
+Eval vm_compute in ("<<<M2870>>>" ++ check (runes_of_ascii "packet A { Inner { match k as n { [1,22] : B, }, }, }")).
+Eval vm_compute in ("<<<M2589>>>" ++ check (runes_of_ascii "packet A { x @lengthOf(y) @calculatedFrom(""c""), }")).
+Eval vm_compute in ("<<<M112>>>" ++ check (runes_of_ascii "MetaData crc { uint8x float
+,}
+// @lengthOf(
+")).
+Eval vm_compute in ("<<<M4600>>>" ++ check (runes_of_ascii "root packet 
+lengthOf
+	{
+    }
 
 options {
-    asx = zchar[3]
-    stringy = '\x00'
-}")).
-Eval vm_compute in ("<<<M3288>>>" ++ check (runes_of_ascii "MetaData float { float64 charz `
-` , } root packet
+	}
+")).
+Eval vm_compute in ("<<<M2785>>>" ++ check (runes_of_ascii "= ] i64 f32 @calculatedFrom( ; match false")).
+Eval vm_compute in ("<<<M3192>>>" ++ check (runes_of_ascii "root packet
 // c
-chars { @rightPad ( '0' ) Foo , }")).
-Eval vm_compute in ("<<<M3499>>>" ++ check (runes_of_ascii "packet chars { } packet MetaDataX { @tag( // c
-42 ) i16 string_ , repeat x `say ""hi""` , }")).
-Eval vm_compute in ("<<<M2272>>>" ++ check (runes_of_ascii "options
-{ } options { BodyLength= u16 Header= f64 ; u128 = =
-    true
-    ; } // a // b")).
-Eval vm_compute in ("<<<M2912>>>" ++ check (runes_of_ascii "packet A {
-  match k as n {
-    [""a"", ""bb"", ""c c"", ""d"", ""e"", ""f""] : B,
-    2 : C
-  },
+u128 { chars `it's` , }")).
+Eval vm_compute in ("<<<M1710>>>" ++ check (runes_of_ascii "options { trueish = ""`tick`"" ; string_")).
+Eval vm_compute in ("<<<M2749>>>" ++ check (runes_of_ascii "7n9Pa7n1_7](hItIzEPN(=6lB6B^*NjpYE6g")).
+Eval vm_compute in ("<<<M4442>>>" ++ check (runes_of_ascii "root packet A {
+    u8 x `
+    `,
 }")).
-Eval vm_compute in ("<<<M2268>>>" ++ check (runes_of_ascii "options
-{ } options { BodyLength= u16 Header= f64 ; = u128
-    true
-    ; } // a // b")).
-Eval vm_compute in ("<<<M3238>>>" ++ check (runes_of_ascii "packet metadata { Logon { A `" ++ [28040; 24687; 31867; 22411]%N ++ runes_of_ascii "` , tag o , } ,
+Eval vm_compute in ("<<<M2652>>>" ++ check (runes_of_ascii "MetaData M { u8 x @lengthOf(y), }")).
+Eval vm_compute in ("<<<M4391>>>" ++ check (runes_of_ascii "packet A {
+    u8 x `d" ++ [8192]%N ++ runes_of_ascii "`,// c" ++ [8192]%N ++ runes_of_ascii "
+}")).
+Eval vm_compute in ("<<<M3067>>>" ++ check (runes_of_ascii "packet A {
+ u8 x `d" ++ [12288]%N ++ runes_of_ascii "`, // c" ++ [12288]%N ++ runes_of_ascii "
+}")).
+Eval vm_compute in ("<<<M4006>>>" ++ check (runes_of_ascii "options {
+    pack = false;
+}")).
+Eval vm_compute in ("<<<M2806>>>" ++ check (runes_of_ascii "P" ++ [65533; 65533; 23; 65533; 65533]%N ++ runes_of_ascii "0f" ++ [65533; 3; 521]%N ++ runes_of_ascii "'" ++ [65533]%N ++ runes_of_ascii "bW" ++ [18; 65533; 14; 21]%N ++ runes_of_ascii "~" ++ [65533; 65533; 12; 1709; 65533; 65533; 127]%N)).
+Eval vm_compute in ("<<<M1137>>>" ++ check (runes_of_ascii "packet
+i8i8
+    { }
 // c
-zchar len `// not a comment` , }")).
-Eval vm_compute in ("<<<M2949>>>" ++ check (runes_of_ascii "packet A {
-  match k as n {
-    [1, 22, 007, 4, 5, 66, 7, 8, 9] : B,
-    2 : C
-  },
-}")).
-Eval vm_compute in ("<<<M3458>>>" ++ check (runes_of_ascii "packet o { repeat Logon uint8x , } options { asx = zchar[ 3 ]
-// c
-stringy = '\x00' }")).
-Eval vm_compute in ("<<<M2241>>>" ++ check (runes_of_ascii "options
-{ } options { BodyLength=  Header= f64 ; u128 =
-    true
-    ; } // a // b")).
-Eval vm_compute in ("<<<M3403>>>" ++ check (runes_of_ascii "MetaData body { i64 pack
-// c
-`it's` , } packet stringy { int16 calculatedFrom , }")).
-Eval vm_compute in ("<<<M4500>>>" ++ check (runes_of_ascii "packet A {
-    match k as n {
-        [1, 007, ""bb""] : B,
-        2 : C,
-    },
-}")).
-Eval vm_compute in ("<<<M3950>>>" ++ check (runes_of_ascii "packet 
-x
-{	@rightPad
-( )
-
-repeat
-
-    roots
-
-    Logon 
-`doc`  // c
-
-,
-}")).
-Eval vm_compute in ("<<<M3940>>>" ++ check (runes_of_ascii "packet lengthOf {
-    match u128 as i8i8 {
-        ""a\\"" : Header,
-    },
-}")).
-Eval vm_compute in ("<<<M2891>>>" ++ check (runes_of_ascii "packet A {
-  match k as n {
-    [""a"", 22, ""c c"", 4] : B
-    2 : C
-  },
-}")).
-Eval vm_compute in ("<<<M2851>>>" ++ check (runes_of_ascii "@lengthOf( int8 , MetaData repeat @lengthOf( f32 root repeat '\x00' ]")).
-Eval vm_compute in ("<<<M4426>>>" ++ check (runes_of_ascii "options {
-    msg_type = 42;
-    metadata = """";
-    matchKey = u8
-}")).
-Eval vm_compute in ("<<<M2922>>>" ++ check (runes_of_ascii "packet A { Inner { match k as n { [1,22,007,4,5,66] : B, }, }, }")).
-Eval vm_compute in ("<<<M2290>>>" ++ check (runes_of_ascii "options
-{ } options { BodyLength= u16 Header= f64 ; u128 =
-  ")).
-Eval vm_compute in ("<<<M3364>>>" ++ check (runes_of_ascii "
-// c
-packet x { @rightPad ( ) repeat roots Logon `doc` , }")).
-Eval vm_compute in ("<<<M3378>>>" ++ check (runes_of_ascii "packet x { @rightPad ( ) repeat
-// c
-roots Logon `doc` , }")).
-Eval vm_compute in ("<<<M1899>>>" ++ check (runes_of_ascii "MetaData
-    u { }  options {
-// c
-// @lengthOf(
-float =")).
-Eval vm_compute in ("<<<M4591>>>" ++ check (runes_of_ascii "MetaData M {
-    u8 x `a
-    b`,
-    T t `a
-    b`,
-}")).
-Eval vm_compute in ("<<<M1245>>>" ++ check (runes_of_ascii "options{
-i8i8 =u32
-    ; msg_type  = //
-true
+")).
+Eval vm_compute in ("<<<M2291>>>" ++ check (runes_of_ascii "options
+{ } options { B")).
+Eval vm_compute in ("<<<M2743>>>" ++ check (runes_of_ascii "int64 [ ; { char[] u32")).
+Eval vm_compute in ("<<<M2230>>>" ++ check (runes_of_ascii "options
+{ } options")).
+Eval vm_compute in ("<<<M2644>>>" ++ check (runes_of_ascii "MetaData M { u8 x }")).
+Eval vm_compute in ("<<<M3065>>>" ++ check (runes_of_ascii "packet A {
+}
+// c" ++ [12288]%N)).
+Eval vm_compute in ("<<<M3158>>>" ++ check (runes_of_ascii "MetaData M {
+}// c")).
+Eval vm_compute in ("<<<M3128>>>" ++ check (runes_of_ascii "packet A {
+}// c" ++ [8203]%N)).
+Eval vm_compute in ("<<<M3155>>>" ++ check (runes_of_ascii "packet A {
 }
 
-")).
-Eval vm_compute in ("<<<M755>>>" ++ check (runes_of_ascii "MetaData
-u8x{ a1
-float// trailing space 
-, }
-")).
-Eval vm_compute in ("<<<M4361>>>" ++ check (runes_of_ascii "
-packet  // packet A { u8 x, }
-	rootA  {
-}
-")).
-Eval vm_compute in ("<<<M1199>>>" ++ check (runes_of_ascii "
-MetaData u8x { msg_type
-    matchKey, }
-")).
-Eval vm_compute in ("<<<M2800>>>" ++ check (runes_of_ascii "packet int32 options i32 MetaData packet")).
-Eval vm_compute in ("<<<M4593>>>" ++ check (runes_of_ascii "packet
-A  { 
-u8
-x
 
-`d" ++ [8233]%N ++ runes_of_ascii "`
-	, // c" ++ [8233]%N ++ runes_of_ascii "
-
-  } ")).
-Eval vm_compute in ("<<<M2605>>>" ++ check (runes_of_ascii "packet A { match k as n { 1 : B }, }")).
-Eval vm_compute in ("<<<M2812>>>" ++ check (runes_of_ascii "i64 @lengthOf( `// not a comment` (")).
-Eval vm_compute in ("<<<M4399>>>" ++ check (runes_of_ascii "packet i8i8 {
-    a1 `{ , }`,
-}//x")).
-Eval vm_compute in ("<<<M3036>>>" ++ check (runes_of_ascii "root packet A {
-    u8 x `x
-`,
-}")).
-Eval vm_compute in ("<<<M2732>>>" ++ check ([65533; 2]%N ++ runes_of_ascii "+" ++ [65533]%N ++ runes_of_ascii "q" ++ [30]%N ++ runes_of_ascii "~#" ++ [65533; 65533]%N ++ runes_of_ascii "?&4" ++ [65533]%N ++ runes_of_ascii "ve" ++ [65533; 65533; 65533]%N ++ runes_of_ascii "j" ++ [65533; 65533; 3; 65533; 65533; 25; 16; 65533; 65533; 29]%N)).
-Eval vm_compute in ("<<<M3007>>>" ++ check (runes_of_ascii "packet A {
-    u8 x `a
-b`,
-}")).
-Eval vm_compute in ("<<<M2780>>>" ++ check (runes_of_ascii "&.0eM;;i>|Pm^?l:T]h$Bi_(l64")).
-Eval vm_compute in ("<<<M1120>>>" ++ check (runes_of_ascii "packet
-    Logon
-{Foo , }")).
-Eval vm_compute in ("<<<M2701>>>" ++ check (runes_of_ascii "zchar[ float32 ' ' { '0'")).
-Eval vm_compute in ("<<<M285>>>" ++ check (runes_of_ascii "MetaData leftPad {
-}
 ")).
-Eval vm_compute in ("<<<M2856>>>" ++ check (runes_of_ascii "0" ++ [284; 7; 65533]%N ++ runes_of_ascii "o" ++ [65533]%N ++ runes_of_ascii ">a" ++ [65533; 65533]%N ++ runes_of_ascii "3" ++ [31; 65533]%N ++ runes_of_ascii " " ++ [6; 65533; 65533; 28; 65533; 65533]%N)).
-Eval vm_compute in ("<<<M3126>>>" ++ check (runes_of_ascii "// c 	
-packet A {
-}")).
-Eval vm_compute in ("<<<M3070>>>" ++ check (runes_of_ascii "packet A {
-}
-// c" ++ [160]%N)).
-Eval vm_compute in ("<<<M3797>>>" ++ check (runes_of_ascii "root packet As {
-}")).
-Eval vm_compute in ("<<<M3133>>>" ++ check (runes_of_ascii "packet A {
-}// c" ++ [65279]%N)).
-Eval vm_compute in ("<<<M4284>>>" ++ check (runes_of_ascii "  options
-
-{}
+Eval vm_compute in ("<<<M1294>>>" ++ check (runes_of_ascii "
+/// triple
 ")).
-Eval vm_compute in ("<<<M2225>>>" ++ check (runes_of_ascii "options
-{ }")).
 Eval vm_compute in ("<<<M2802>>>" ++ check ([65533; 65533]%N ++ runes_of_ascii "K" ++ [65533; 65533]%N ++ runes_of_ascii "	y" ++ [65533; 65533]%N ++ runes_of_ascii "7")).
-Eval vm_compute in ("<<<M723>>>" ++ check (runes_of_ascii "//x
- 	 ")).
-Eval vm_compute in ("<<<M2513>>>" ++ check (runes_of_ascii """a\
-b""")).
-Eval vm_compute in ("<<<M2752>>>" ++ check (runes_of_ascii "x\SS\")).
-Eval vm_compute in ("<<<M2503>>>" ++ check (runes_of_ascii "//x")).
-Eval vm_compute in ("<<<M2518>>>" ++ check (runes_of_ascii """`""")).
-Eval vm_compute in ("<<<M2507>>>" ++ check (runes_of_ascii """""")).
-Eval vm_compute in ("<<<M2688>>>" ++ check ([0]%N)).
+Eval vm_compute in ("<<<M2435>>>" ++ check (runes_of_ascii "zchar [")).
+Eval vm_compute in ("<<<M3124>>>" ++ check (runes_of_ascii "// c 	")).
+Eval vm_compute in ("<<<M3089>>>" ++ check (runes_of_ascii "// c" ++ [8202]%N)).
+Eval vm_compute in ("<<<M2542>>>" ++ check (runes_of_ascii "{}{}")).
+Eval vm_compute in ("<<<M2545>>>" ++ check (runes_of_ascii "ab")).
+Eval vm_compute in ("<<<M2555>>>" ++ check (runes_of_ascii "a" ++ [233]%N)).
